@@ -2,13 +2,40 @@ import LdarModel.Model.Sim
 import LdarModel.Lemmas.World
 import LdarModel.Lemmas.Cost
 import LdarModel.Props.C01
+import LdarModel.Props.C02
+import LdarModel.Props.C03
 import LdarModel.Props.C04
 import LdarModel.Props.C05
+import LdarModel.Props.C08
 import LdarModel.Props.C10
 import LdarModel.Props.C11
 /-
 Composition theorems about the integrated simulation model (`Model/Sim.lean`): what the wiring
-between the component models guarantees, for all worlds, programs, inputs and horizons.
+between the component models guarantees, for all worlds, programs, inputs and horizons.  The component
+theorems are re-used, not re-proved.
+
+  (a) `sim_tag_chain`         every tag request reaching an emission was issued by a component-level method
+                              on a survey of its site completed that day with measured rate > 0 at its component
+      `sim_repair_chain`      C04's whole chain: repaired by company c ⇒ such a survey by method c on a day T, first
+                              tag, end date T + max 1 (repair delay + reporting delay)          [C04_repair_needs_tag_E]
+  (b) `sim_row_world`         emissions part of every row = `World.row` of the per-emission runs   (WF scenario)
+      `sim_ledger`, `sim_reconstruct`                                                         [C11 ledger, reconstruct_row]
+  (c) `sim_lifecycle`         state of every emission = `Emission.runE` on the generated events  (WF scenario)
+      `sim_mitigation`, `sim_never_worse`   C02 / C03 against the *simulated* program without methods
+  (d) `sim_cost_identity`     C10's row identity; `sim_method_cost`, `sim_per_site_once` (per method);
+      `sim_cost_program`      the cost block is `Cost.programDay`; `sim_repairs_once`          [C10 program_repairs_once]
+  (e) `sim_zero_coverage`     all spatial rolls 0 ⇒ emission states, records, emission columns and repair costs of
+                              the program without methods                                  [C05_zero_coverage_is_quiet]
+  (f) `sim_issued_in_months`  requests are issued only in deployment years and months
+      `sim_weather`, `sim_day_budget`   C08 at every method's crew day; one crew record per planned request
+      `sim_reqs_ok`, `sim_crews_within_workday`   the schedule → crews → schedule loop keeps every planned request
+                              admissible (`Crew.ReqOk`), so no crew ever exceeds work day / daylight — unconditionally
+      `sim_sched_runDays`     every routine / screening schedule is a `Sched.runDays` state (C06 / C07 apply)
+  `Sim : Sim_statement`       (a)–(f) together; `lifecycle_all_worlds_counterexample`,
+                              `row_world_all_worlds_counterexample`: (b), (c) need sorted pending lists
+  `WF w` = `wfWorld w = true`: pending lists sorted by start date (C16 `generate_sorted`) and numbered in
+  infrastructure order; the driver evaluates it on every scenario of a real run.
+  `lookupD_tabulate`, `runAcc_eq`: the two devices of the executable (state tables, one-pass run) are identities.
 -/
 namespace LdarModel.Sim
 open LdarModel
@@ -43,11 +70,11 @@ def DoneOK (w : World) (inp : Inputs) (n m : Nat) (c : MethodCfg) (ss : List Emi
   d.sv.cfg = sensorCfg w c d.out.req.site ∧ ∃ covs, d.sv.xs = mkXs w inp n m ss covs
 
 theorem foldl_surveyOne (w : World) (inp : Inputs) (n m : Nat) (c : MethodCfg) (ss : List Emission.State)
-    (P : Done → Prop)
+    (lt : Nat → Int) (P : Done → Prop)
     (hP : ∀ (covs : List Cov) (o : Crew.OutRec) (d : Done),
-      d ∈ (surveyOne w inp n m c ss (covs, []) o).2 → P d)
+      d ∈ (surveyOne w inp n m c ss lt (covs, []) o).2 → P d)
     (os : List Crew.OutRec) (acc : List Cov × List Done) (hacc : ∀ d ∈ acc.2, P d) :
-    ∀ d ∈ (os.foldl (surveyOne w inp n m c ss) acc).2, P d := by
+    ∀ d ∈ (os.foldl (surveyOne w inp n m c ss lt) acc).2, P d := by
   induction os generalizing acc with
   | nil => simpa using hacc
   | cons o os ih =>
@@ -62,12 +89,12 @@ theorem foldl_surveyOne (w : World) (inp : Inputs) (n m : Nat) (c : MethodCfg) (
       exact hd
 
 theorem surveyAll_spec (w : World) (inp : Inputs) (n m : Nat) (c : MethodCfg) (ss : List Emission.State)
-    (covs : List Cov) (dd : Crew.DaySt) :
-    ∀ d ∈ (surveyAll w inp n m c ss covs dd).2, DoneOK w inp n m c ss dd d := by
+    (lt : Nat → Int) (covs : List Cov) (dd : Crew.DaySt) :
+    ∀ d ∈ (surveyAll w inp n m c ss lt covs dd).2, DoneOK w inp n m c ss dd d := by
   unfold surveyAll
   have key : ∀ (os : List Crew.OutRec) (acc : List Cov × List Done),
       (∀ o ∈ os, o ∈ completed dd) → (∀ d ∈ acc.2, DoneOK w inp n m c ss dd d) →
-      ∀ d ∈ (os.foldl (surveyOne w inp n m c ss) acc).2, DoneOK w inp n m c ss dd d := by
+      ∀ d ∈ (os.foldl (surveyOne w inp n m c ss lt) acc).2, DoneOK w inp n m c ss dd d := by
     intro os
     induction os with
     | nil => intro acc _ hacc; simpa using hacc
@@ -89,19 +116,69 @@ theorem planDay_dd (c : MethodCfg) (inp : Inputs) (n m : Nat) (me : MethSt) (lt 
   unfold planDay
   split <;> rfl
 
-/-- a trace of day `n`: the crew day is `Crew.deployDay` on the trace's own plan, and every completed
-survey record comes from a completed visit of that crew day -/
+theorem guardK_months (k : Sched.Kind) (p : Sched.PlannerP) (dt : Sched.Date) (s : Sched.PlannerS)
+    (h : Sched.guardK k p dt s = true) : dt.y ∈ p.depYears ∧ dt.m ∈ p.months := by
+  cases k
+  · simp only [Sched.guardK, Sched.guardRoutine, Bool.and_eq_true, decide_eq_true_eq] at h
+    exact ⟨h.1.1.1.1, h.1.1.1.2⟩
+  · simp only [Sched.guardK, Sched.guardStationary, Bool.and_eq_true, decide_eq_true_eq] at h
+    exact ⟨h.1.1.1, h.1.1.2⟩
+  · simp only [Sched.guardK, Sched.guardRoutine, Bool.and_eq_true, decide_eq_true_eq] at h
+    exact ⟨h.1.1.1.1, h.1.1.1.2⟩
+
+/-- the requests a method's planners issue on day `n` are issued in a deployment year and month -/
+def IssuedOK (inp : Inputs) (n : Nat) (t : MethTrace) : Prop :=
+  ∀ i ∈ t.issued, i ∈ t.cfg.sites ∧ (inp.date n).y ∈ (t.cfg.P i).depYears ∧ (inp.date n).m ∈ (t.cfg.P i).months
+
+theorem planDay_issued (c : MethodCfg) (inp : Inputs) (n m : Nat) (me : MethSt) (lt : Nat → Int) :
+    ∀ i ∈ (planDay c inp n m me lt).issued,
+      i ∈ c.sites ∧ (inp.date n).y ∈ (c.P i).depYears ∧ (inp.date n).m ∈ (c.P i).months := by
+  intro i hi
+  unfold planDay at hi
+  split at hi
+  · cases hi
+  · simp only [Sched.dayTrace, Sched.issued, List.mem_filter] at hi
+    exact ⟨hi.1, guardK_months _ _ _ _ hi.2⟩
+
+/-- the planned requests of a trace are its work plan, each with the method's survey time and cost of
+the site and the day's inputs (sampled travel time, weather outcome) of that (method, site) -/
+def ReqsOK (inp : Inputs) (n : Nat) (t : MethTrace) : Prop :=
+  t.reqs.map (·.site) = t.keys ∧
+  ∀ r ∈ t.reqs, r.S = t.cfg.S r.site ∧ r.siteCost = t.cfg.siteCost r.site ∧
+    r.T = inp.travel n t.m r.site ∧ r.wx = wxOf (inp.workable n t.m r.site)
+
+theorem planDay_reqs (c : MethodCfg) (inp : Inputs) (n m : Nat) (me : MethSt) (lt : Nat → Int) :
+    (planDay c inp n m me lt).reqs.map (·.site) = (planDay c inp n m me lt).keys ∧
+    ∀ r ∈ (planDay c inp n m me lt).reqs, r.S = c.S r.site ∧ r.siteCost = c.siteCost r.site ∧
+      r.T = inp.travel n m r.site ∧ r.wx = wxOf (inp.workable n m r.site) := by
+  unfold planDay
+  split
+  · refine ⟨by simp [List.map_map, Function.comp_def, mkReq], ?_⟩
+    intro r hr
+    simp only [List.mem_map] at hr
+    obtain ⟨i, _, rfl⟩ := hr
+    exact ⟨rfl, rfl, rfl, rfl⟩
+  · refine ⟨by simp [List.map_map, Function.comp_def, mkReq], ?_⟩
+    intro r hr
+    simp only [List.mem_map] at hr
+    obtain ⟨i, _, rfl⟩ := hr
+    exact ⟨rfl, rfl, rfl, rfl⟩
+
+/-- a trace of day `n`: the crew day is `Crew.deployDay` on the trace's own plan, every completed
+survey record comes from a completed visit of that crew day, requests are issued in deployment months -/
 def TraceOK (w : World) (inp : Inputs) (n : Nat) (ss : List Emission.State) (t : MethTrace) : Prop :=
   t.dd = deploy t.cfg inp n t.reqs ∧ t.budget = budgetMin t.cfg (inp.daylightMin n) ∧
-  ∀ d ∈ t.dones, DoneOK w inp n t.m t.cfg ss t.dd d
+  (∀ d ∈ t.dones, DoneOK w inp n t.m t.cfg ss t.dd d) ∧ IssuedOK inp n t ∧ ReqsOK inp n t
 
 theorem methodStep_traces (w : World) (inp : Inputs) (n : Nat) (ss : List Emission.State) (acc : Acc)
     (m : Nat) (c : MethodCfg) :
     ∃ t, (methodStep w inp n ss acc m c).traces = acc.traces ++ [t] ∧ t.m = m ∧ t.cfg = c ∧
       TraceOK w inp n ss t := by
-  refine ⟨_, rfl, rfl, rfl, ?_, rfl, ?_⟩
+  refine ⟨_, rfl, rfl, rfl, ?_, rfl, ?_, ?_, ?_⟩
   · exact planDay_dd c inp n m _ _
-  · exact surveyAll_spec w inp n m c ss _ _
+  · exact surveyAll_spec w inp n m c ss _ _ _
+  · exact planDay_issued c inp n m _ _
+  · exact planDay_reqs c inp n m _ _
 
 theorem stepMethods_traces (w : World) (inp : Inputs) (n : Nat) (ss : List Emission.State) :
     ∀ (cs : List MethodCfg) (m0 : Nat) (acc : Acc),
@@ -182,7 +259,7 @@ theorem sim_tag_chain (w : World) (prog : Program) (inp : Inputs) (info : EmInfo
   obtain ⟨d, hd, hev⟩ := List.mem_flatMap.1 h
   unfold dayDones at hd
   obtain ⟨t, ht, hdt⟩ := List.mem_flatMap.1 hd
-  obtain ⟨hprog, hdd, _, hdone⟩ := day_traces w prog inp n _ t ht
+  obtain ⟨hprog, hdd, _, hdone, _, _⟩ := day_traces w prog inp n _ t ht
   obtain ⟨hout, hm, htrd, _, hsite, hcfg, _⟩ := hdone d hdt
   unfold evOfDone at hev
   rcases List.mem_append.1 hev with hev | hev
@@ -217,5 +294,1733 @@ theorem sim_tag_chain (w : World) (prog : Program) (inp : Inputs) (info : EmInfo
   · split at hev
     · simp at hev
     · cases hev
+
+
+/-! ### (c) per-emission life-cycle = `Emission.runE` on the events the simulation generated -/
+
+/-- the scenario is well formed (`wfWorld`, evaluated by the driver on every scenario of a real run) -/
+def WF (w : World) : Prop := wfWorld w = true
+
+theorem wf_sorted (w : World) (h : WF w) : ∀ s ∈ w.srcs, Heap.sortedByStart s.all = true := by
+  unfold WF wfWorld at h
+  simp only [Bool.and_eq_true, List.all_eq_true] at h
+  exact h.1
+
+theorem wf_aligned (w : World) (h : WF w) : aligned 0 (w.srcs.flatMap (·.all)) w.ems = true := by
+  unfold WF wfWorld at h
+  simp only [Bool.and_eq_true] at h
+  exact h.2
+
+theorem aligned_cons (k : Nat) (x : Heap.EmId) (xs : List Heap.EmId) (info : EmInfo) (infos : List EmInfo)
+    (h : aligned k (x :: xs) (info :: infos) = true) :
+    x.id = k ∧ info.idx = k ∧ x.start = info.p.start ∧ aligned (k + 1) xs infos = true := by
+  simpa [aligned, and_assoc] using h
+
+theorem aligned_ids_ge : ∀ (xs : List Heap.EmId) (infos : List EmInfo) (k : Nat),
+    aligned k xs infos = true → ∀ x ∈ xs, k ≤ x.id := by
+  intro xs
+  induction xs with
+  | nil => intro _ _ _ x hx; cases hx
+  | cons x xs ih =>
+    intro infos k h y hy
+    cases infos with
+    | nil => simp [aligned] at h
+    | cons info infos =>
+      obtain ⟨h1, _, _, h4⟩ := aligned_cons k x xs info infos h
+      rcases List.mem_cons.1 hy with rfl | hy
+      · omega
+      · have := ih infos (k + 1) h4 y hy; omega
+
+theorem aligned_idx : ∀ (xs : List Heap.EmId) (infos : List EmInfo) (k i : Nat) (info : EmInfo),
+    aligned k xs infos = true → infos[i]? = some info → info.idx = k + i := by
+  intro xs
+  induction xs with
+  | nil =>
+    intro infos k i info h hi
+    cases infos with
+    | nil => simp at hi
+    | cons _ _ => simp [aligned] at h
+  | cons x xs ih =>
+    intro infos k i info h hi
+    cases infos with
+    | nil => simp at hi
+    | cons info0 infos =>
+      obtain ⟨_, h2, _, h4⟩ := aligned_cons k x xs info0 infos h
+      cases i with
+      | zero => simp at hi; subst hi; omega
+      | succ j =>
+        simp at hi
+        have := ih infos (k + 1) j info h4 hi; omega
+
+/-- with aligned numbering, an emission's index is among the ids of the pending entries selected by a
+predicate on the start date iff its own start date satisfies the predicate -/
+theorem aligned_mem_filter (q : Int → Bool) : ∀ (xs : List Heap.EmId) (infos : List EmInfo) (k i : Nat)
+    (info : EmInfo), aligned k xs infos = true → infos[i]? = some info →
+    (info.idx ∈ (xs.filter (fun x => q x.start)).map (·.id) ↔ q info.p.start = true) := by
+  intro xs
+  induction xs with
+  | nil =>
+    intro infos k i info h hi
+    cases infos with
+    | nil => simp at hi
+    | cons _ _ => simp [aligned] at h
+  | cons x xs ih =>
+    intro infos k i info h hi
+    cases infos with
+    | nil => simp at hi
+    | cons info0 infos =>
+      obtain ⟨h1, h2, h3, h4⟩ := aligned_cons k x xs info0 infos h
+      have hge := aligned_ids_ge xs infos (k + 1) h4
+      cases i with
+      | zero =>
+        simp at hi; subst hi
+        have hnot : info0.idx ∉ (xs.filter (fun x => q x.start)).map (·.id) := by
+          intro hm
+          obtain ⟨y, hy, hyid⟩ := List.mem_map.1 hm
+          have := hge y (List.mem_filter.1 hy).1
+          omega
+        by_cases hq : q x.start = true
+        · simp [hq, h1, h2, ← h3]
+        · have hq' : q x.start = false := by simpa using hq
+          simp only [List.filter_cons, hq', Bool.false_eq_true, if_false]
+          rw [← h3, hq']
+          simp [hnot]
+      | succ j =>
+        simp at hi
+        have hidx := aligned_idx xs infos (k + 1) j info h4 hi
+        have hne : x.id ≠ info.idx := by omega
+        have := ih infos (k + 1) j info h4 hi
+        rw [← this]
+        have hne' : info.idx ≠ x.id := fun h => hne h.symm
+        by_cases hq : q x.start = true
+        · simp [hq, hne']
+        · have hq' : q x.start = false := by simpa using hq
+          simp [hq']
+
+/-- the activation cursors of the run are those of the scenario after `N` days -/
+theorem srcs_inv (w : World) (prog : Program) (inp : Inputs) (N : Nat) :
+    (simState w prog inp N).srcs.map (·.all) = w.srcs.map (fun s => (Heap.srcAfter N s).all) := by
+  induction N with
+  | zero => rfl
+  | succ n ih =>
+    have e : (simState w prog inp (n + 1)).srcs =
+        ((simState w prog inp n).srcs.map (Heap.activateSrc (n : Int))).map (·.2) := rfl
+    rw [e, List.map_map, List.map_map]
+    have h1 : (fun s : Heap.Src => ((Heap.activateSrc (n : Int) s).2).all) =
+        (fun l => l.dropWhile (Heap.le (n : Int))) ∘ (·.all) := by
+      funext s; exact (Heap.activateSrc_spec (n : Int) s).2
+    have h1' : ((fun x : Heap.Src => x.all) ∘ (fun x : List Heap.EmId × Heap.Src => x.2)) ∘ Heap.activateSrc (n : Int) =
+        (fun l => l.dropWhile (Heap.le (n : Int))) ∘ (·.all) := by
+      funext s; exact (Heap.activateSrc_spec (n : Int) s).2
+    rw [h1', ← List.map_map, ih, List.map_map]
+    apply List.map_congr_left
+    intro s _
+    simp only [Function.comp]
+    rw [Heap.srcAfter_all]
+    cases n with
+    | zero => rfl
+    | succ m =>
+      rw [Heap.srcAfter_all]
+      exact (Heap.takeWhile_chain s.all (m : Int) ((m + 1 : Nat) : Int) (by push_cast; omega)).2
+
+theorem flatMap_congr_mem {α β} (l : List α) (f g : α → List β) (h : ∀ a ∈ l, f a = g a) :
+    l.flatMap f = l.flatMap g := by
+  induction l with
+  | nil => rfl
+  | cons a l ih =>
+    simp only [List.flatMap_cons]
+    rw [h a (List.mem_cons_self ..), ih (fun b hb => h b (List.mem_cons_of_mem _ hb))]
+
+/-- `max start 0 = N` as a Boolean predicate on start dates -/
+def dueOn (N : Nat) (st : Int) : Bool := decide ((if st > 0 then st else 0) = (N : Int))
+
+/-- the ids `Infrastructure.activate_emissions` hands out on day `N` of the run -/
+def newIdsOn (w : World) (prog : Program) (inp : Inputs) (N : Nat) : List Nat :=
+  ((((simState w prog inp N).srcs.map (Heap.activateSrc (N : Int))).flatMap (·.1)).map (·.id))
+
+theorem newIds_eq (w : World) (prog : Program) (inp : Inputs) (hw : WF w) (N : Nat) :
+    newIdsOn w prog inp N = ((w.srcs.flatMap (·.all)).filter (fun x => dueOn N x.start)).map (·.id) := by
+  unfold newIdsOn
+  congr 1
+  rw [List.flatMap_map]
+  have h1 : (fun s : Heap.Src => (Heap.activateSrc (N : Int) s).1) =
+      (fun l => l.takeWhile (Heap.le (N : Int))) ∘ (·.all) := by
+    funext s; exact (Heap.activateSrc_spec (N : Int) s).1
+  rw [h1]
+  have h2 : ∀ (l : List Heap.Src), l.flatMap ((fun l => l.takeWhile (Heap.le (N : Int))) ∘ (·.all)) =
+      (l.map (·.all)).flatMap (fun l => l.takeWhile (Heap.le (N : Int))) := by
+    intro l; rw [List.flatMap_map]; rfl
+  rw [h2, srcs_inv, List.flatMap_map, List.filter_flatMap]
+  apply flatMap_congr_mem
+  intro s hs
+  have := Heap.activation_day s (wf_sorted w hw s hs) N
+  unfold Heap.handedOutOn at this
+  rw [(Heap.activateSrc_spec _ _).1] at this
+  rw [this]
+  rfl
+
+/-- an emission is pending exactly as long as no simulated day has reached its start date -/
+theorem runE_inactive (p : Emission.Params) (ev : Nat → List Emission.Ev) (N : Nat)
+    (h : (Emission.runE p ev N).status = .inactive) : ∀ k, k < N → ¬ p.start ≤ (k : Int) := by
+  induction N with
+  | zero => intro k hk; omega
+  | succ n ih =>
+    have e : Emission.runE p ev (n + 1) = Emission.dayE p n (ev n) (Emission.runE p ev n) := rfl
+    rw [e] at h
+    cases hs : (Emission.runE p ev n).status with
+    | inactive =>
+      have hn : ¬ p.start ≤ (n : Int) := by
+        intro hle
+        have := World.dayE_live p n (ev n) _ (Or.inr ⟨hs, hle⟩)
+        rw [h] at this; simp at this
+      intro k hk
+      by_cases hkn : k = n
+      · subst hkn; exact hn
+      · exact ih hs k (by omega)
+    | active =>
+      have := World.dayE_live p n (ev n) _ (Or.inl hs)
+      rw [h] at this; simp at this
+    | repaired =>
+      rw [World.dayE_frozen p n (ev n) _ (Or.inl hs), hs] at h; cases h
+    | expired =>
+      rw [World.dayE_frozen p n (ev n) _ (Or.inr hs), hs] at h; cases h
+
+/-- the activation bridge: in a well-formed scenario the cursor hands out on day `N` exactly the
+emissions `Emission.activate` would activate -/
+theorem activateS_eq (w : World) (prog : Program) (inp : Inputs) (hw : WF w) (N i : Nat) (info : EmInfo)
+    (hi : w.ems[i]? = some info) (ev : Nat → List Emission.Ev) :
+    activateS N (newIdsOn w prog inp N) info (Emission.runE info.p ev N) =
+      Emission.activate info.p (N : Int) (Emission.runE info.p ev N) := by
+  unfold activateS
+  split
+  · rfl
+  · rename_i hc
+    have hmem : info.idx ∉ newIdsOn w prog inp N := by simpa using hc
+    rw [newIds_eq w prog inp hw N] at hmem
+    have hq : ¬ dueOn N info.p.start = true := fun hq' =>
+      hmem ((aligned_mem_filter (dueOn N) _ _ 0 i info (wf_aligned w hw) hi).2 hq')
+    unfold Emission.activate
+    split
+    · rename_i hact
+      exfalso
+      obtain ⟨hin, hle⟩ := hact
+      have hpend := runE_inactive info.p ev N hin
+      apply hq
+      unfold dueOn
+      simp only [decide_eq_true_eq]
+      cases N with
+      | zero => split <;> omega
+      | succ m =>
+        have := hpend m (by omega)
+        have hc : ((m + 1 : Nat) : Int) = (m : Int) + 1 := by push_cast; rfl
+        rw [hc] at hle ⊢
+        split <;> omega
+    · rfl
+
+theorem simState_ss_succ (w : World) (prog : Program) (inp : Inputs) (N : Nat) :
+    (simState w prog inp (N + 1)).ss =
+      (List.zipWith (finishEm N (dayDones w prog inp N)) w.ems
+        (List.zipWith (activateS N (newIdsOn w prog inp N)) w.ems (simState w prog inp N).ss)).map (·.fin) := rfl
+
+/-- **(c) life-cycle.**  In a well-formed scenario the state of every emission after `N` simulated days
+of `simRun` is `Emission.runE` of its own parameters on the events the simulation generated for it —
+so every theorem about `runE` (C02, C03, C04) holds of the integrated simulation. -/
+theorem sim_lifecycle (w : World) (prog : Program) (inp : Inputs) (hw : WF w) (N i : Nat) (info : EmInfo)
+    (hi : w.ems[i]? = some info) :
+    (simState w prog inp N).ss[i]? = some (Emission.runE info.p (evTrace w prog inp info) N) := by
+  induction N with
+  | zero =>
+    have : (simState w prog inp 0).ss = w.ems.map (fun _ => ({} : Emission.State)) := rfl
+    rw [this]
+    simp [hi]
+    rfl
+  | succ n ih =>
+    rw [simState_ss_succ]
+    simp only [List.getElem?_map, List.getElem?_zipWith, hi, ih, Option.map_some]
+    congr 1
+    unfold finishEm
+    simp only
+    rw [activateS_eq w prog inp hw n i info hi]
+    rfl
+
+
+/-! ### (b) the emissions part of every timeseries row = `World.row` of the per-emission runs -/
+
+/-- one emission of the scenario as an element of a `World`: its parameters, its rate and the events
+the simulation generated for it -/
+def emOf (w : World) (prog : Program) (inp : Inputs) (info : EmInfo) : World.Em :=
+  { p := info.p, rate := info.rate, ev := evTrace w prog inp info }
+
+/-- the world the integrated simulation induces -/
+def worldOf (w : World) (prog : Program) (inp : Inputs) : List World.Em := w.ems.map (emOf w prog inp)
+
+theorem ss_length (w : World) (prog : Program) (inp : Inputs) (N : Nat) :
+    (simState w prog inp N).ss.length = w.ems.length := by
+  induction N with
+  | zero => simp [simState, init]
+  | succ n ih => rw [simState_ss_succ]; simp [ih]
+
+/-- (c) in list form -/
+theorem ss_eq (w : World) (prog : Program) (inp : Inputs) (hw : WF w) (N : Nat) :
+    (simState w prog inp N).ss = w.ems.map (fun info => World.st (emOf w prog inp info) N) := by
+  apply List.ext_getElem?
+  intro i
+  cases hi : w.ems[i]? with
+  | none =>
+    have h1 : w.ems.length ≤ i := by simpa using hi
+    have h2 : (simState w prog inp N).ss.length ≤ i := by rw [ss_length]; exact h1
+    simp [hi, List.getElem?_eq_none h2]
+  | some info =>
+    rw [sim_lifecycle w prog inp hw N i info hi]
+    simp [hi, World.st, emOf]
+
+theorem zipWith_map_self {α β γ} (g : α → β → γ) (f : α → β) (l : List α) :
+    List.zipWith g l (l.map f) = l.map (fun a => g a (f a)) := by
+  induction l with
+  | nil => rfl
+  | cons a l ih => simp [ih]
+
+/-- the per-emission day records of the run are those of the induced world -/
+theorem days_eq (w : World) (prog : Program) (inp : Inputs) (hw : WF w) (n : Nat) :
+    (simDayOut w prog inp n (simState w prog inp n)).days =
+      w.ems.map (fun info => { info := info, mid := World.mid (emOf w prog inp info) n,
+                               fin := World.st (emOf w prog inp info) (n + 1) }) := by
+  have e : (simDayOut w prog inp n (simState w prog inp n)).days =
+      List.zipWith (finishEm n (dayDones w prog inp n)) w.ems
+        (List.zipWith (activateS n (newIdsOn w prog inp n)) w.ems (simState w prog inp n).ss) := rfl
+  rw [e, ss_eq w prog inp hw n, zipWith_map_self, zipWith_map_self]
+  apply List.map_congr_left
+  intro info hinfo
+  obtain ⟨i, hi⟩ := List.getElem?_of_mem hinfo
+  have := activateS_eq w prog inp hw n i info hi (evTrace w prog inp info)
+  unfold finishEm
+  simp only [World.st, emOf] at this ⊢
+  rw [this]
+  rfl
+
+theorem mid_status (e : World.Em) (n : Nat) :
+    (World.mid e n).status = (Emission.activate e.p (n : Int) (World.st e n)).status := by
+  unfold World.mid
+  exact World.events_status e.p n (e.ev n) _
+
+theorem mid_active (e : World.Em) (n : Nat) :
+    decide ((World.mid e n).status = .active) = (World.activeAt e n || World.isNew e n) := by
+  rw [mid_status]
+  unfold Emission.activate World.activeAt World.isNew
+  cases hs : (World.st e n).status <;> by_cases hle : e.p.start ≤ (n : Int) <;> simp [hs, hle]
+
+theorem runE_inactive_iff (p : Emission.Params) (ev : Nat → List Emission.Ev) (N : Nat) :
+    (Emission.runE p ev N).status = .inactive ↔ ∀ k, k < N → ¬ p.start ≤ (k : Int) := by
+  refine ⟨runE_inactive p ev N, ?_⟩
+  induction N with
+  | zero => intro _; rfl
+  | succ n ih =>
+    intro h
+    have e : Emission.runE p ev (n + 1) = Emission.dayE p n (ev n) (Emission.runE p ev n) := rfl
+    rw [e]
+    exact World.dayE_pending p n (ev n) _ (ih (fun k hk => h k (by omega))) (h n (by omega))
+
+theorem isNew_iff (e : World.Em) (n : Nat) : World.isNew e n = dueOn n e.p.start := by
+  unfold World.isNew dueOn World.st
+  have := runE_inactive_iff e.p e.ev n
+  by_cases hs : (Emission.runE e.p e.ev n).status = .inactive
+  · have hp := this.1 hs
+    simp only [hs, decide_true, Bool.true_and]
+    cases n with
+    | zero => congr 1; apply propext; constructor <;> intro h <;> split at * <;> omega
+    | succ m =>
+      have hm := hp m (by omega)
+      have hc : ((m + 1 : Nat) : Int) = (m : Int) + 1 := by push_cast; rfl
+      rw [hc]
+      congr 1; apply propext; constructor <;> intro h <;> split at * <;> omega
+  · have hnp : ¬ ∀ k, k < n → ¬ e.p.start ≤ (k : Int) := fun h => hs (this.2 h)
+    simp only [hs, decide_false, Bool.false_and]
+    symm
+    simp only [decide_eq_false_iff_not]
+    intro hd
+    apply hnp
+    intro k hk hle
+    split at hd <;> omega
+
+theorem aligned_count (q : Int → Bool) : ∀ (xs : List Heap.EmId) (infos : List EmInfo) (k : Nat),
+    aligned k xs infos = true →
+    (((xs.filter (fun x => q x.start)).length : Nat) : Int) = (infos.map (fun info => World.ind (q info.p.start))).sum := by
+  intro xs
+  induction xs with
+  | nil =>
+    intro infos k h
+    cases infos with
+    | nil => rfl
+    | cons _ _ => simp [aligned] at h
+  | cons x xs ih =>
+    intro infos k h
+    cases infos with
+    | nil => simp [aligned] at h
+    | cons info infos =>
+      obtain ⟨_, _, h3, h4⟩ := aligned_cons k x xs info infos h
+      have := ih infos (k + 1) h4
+      simp only [List.map_cons, List.sum_cons, ← this, ← h3, List.filter_cons]
+      cases hq : q x.start <;> simp [World.ind] <;> omega
+
+theorem sumDays_map {α} (l : List α) (g : α → EmDay) (f : EmDay → Int) :
+    sumDays (l.map g) f = (l.map (fun a => f (g a))).sum := by
+  unfold sumDays; rw [List.map_map]; rfl
+
+theorem sumOver_worldOf (w : World) (prog : Program) (inp : Inputs) (f : World.Em → Int) :
+    World.sumOver (worldOf w prog inp) f = (w.ems.map (fun info => f (emOf w prog inp info))).sum := by
+  unfold World.sumOver worldOf; rw [List.map_map]; rfl
+
+/-- **(b) the ledger of the integrated simulation is the ledger of its emissions.**  In a well-formed
+scenario the emissions part of the timeseries row of every day of `simRun` — new, active, repaired,
+naturally repaired, expired, daily emissions and their two shares — equals `World.row` of the
+per-emission runs, so C11's `ledger`, `counts` and `reconstruct` theorems apply to the integrated model. -/
+theorem sim_row_world (w : World) (prog : Program) (inp : Inputs) (hw : WF w) (n : Nat) :
+    (simRow w prog inp n).em = World.row (worldOf w prog inp) n := by
+  have e : (simRow w prog inp n).em =
+      emRow ((newIdsOn w prog inp n).length : Nat) (simDayOut w prog inp n (simState w prog inp n)).days := rfl
+  rw [e, days_eq w prog inp hw n]
+  unfold emRow World.row
+  simp only [sumDays_map, sumOver_worldOf]
+  have hact : ∀ info : EmInfo,
+      actI { info := info, mid := World.mid (emOf w prog inp info) n, fin := World.st (emOf w prog inp info) (n + 1) }
+        = World.ind (World.activeAt (emOf w prog inp info) (n + 1)) := fun _ => rfl
+  have hend : ∀ info : EmInfo,
+      ended { info := info, mid := World.mid (emOf w prog inp info) n, fin := World.st (emOf w prog inp info) (n + 1) }
+        = World.endedOn (emOf w prog inp info) n := by
+    intro info
+    unfold ended World.endedOn
+    simp only
+    rw [mid_active]
+    rfl
+  congr 1
+  · -- new
+    rw [newIds_eq w prog inp hw n, List.length_map, aligned_count (dueOn n) _ _ 0 (wf_aligned w hw)]
+    congr 1
+    apply List.map_congr_left
+    intro info _
+    rw [isNew_iff]; rfl
+  · apply congrArg; apply List.map_congr_left; intro info _; rw [hend]; rfl
+  · apply congrArg; apply List.map_congr_left; intro info _; rw [hend]; rfl
+  · apply congrArg; apply List.map_congr_left; intro info _; rw [hend]; rfl
+
+
+/-! ### corollaries: the component theorems hold of the integrated simulation -/
+
+/-- active leaks of the previous row (`0` before the first day) -/
+def prevActiveRow (w : World) (prog : Program) (inp : Inputs) : Nat → Int
+  | 0 => 0
+  | n + 1 => (simRow w prog inp n).em.active
+
+/-- **C11's ledger in the integrated simulation**: active = previous active + new − repaired −
+naturally repaired − expired, on every day, whatever the program does -/
+theorem sim_ledger (w : World) (prog : Program) (inp : Inputs) (hw : WF w) (n : Nat) :
+    (simRow w prog inp n).em.active = prevActiveRow w prog inp n + (simRow w prog inp n).em.new
+      - (simRow w prog inp n).em.repaired - (simRow w prog inp n).em.natRepaired
+      - (simRow w prog inp n).em.expired := by
+  have h := World.ledger (worldOf w prog inp) n
+  rw [← sim_row_world w prog inp hw n] at h
+  have hp : World.prevActive (worldOf w prog inp) n = prevActiveRow w prog inp n := by
+    cases n with
+    | zero => rfl
+    | succ m => simp only [World.prevActive, prevActiveRow]; rw [sim_row_world w prog inp hw m]
+  rw [hp] at h
+  exact h
+
+/-- **C11's reconstruction in the integrated simulation**: the emission columns of every row of a run
+of `N` days are recomputed from the final per-emission records alone -/
+theorem sim_reconstruct (w : World) (prog : Program) (inp : Inputs) (hw : WF w) (N n : Nat) (h : n < N) :
+    (simRow w prog inp n).em = World.recRow (World.records (worldOf w prog inp) N) n := by
+  rw [sim_row_world w prog inp hw n]
+  exact World.reconstruct_row (worldOf w prog inp) N n h
+
+theorem mem_of_tagsOf (evs : List Emission.Ev) (e : Emission.TagEv) (h : e ∈ Emission.tagsOf evs) :
+    Emission.Ev.tag e ∈ evs := by
+  induction evs with
+  | nil => cases h
+  | cons x xs ih =>
+    cases x with
+    | tag t =>
+      simp only [Emission.tagsOf, List.mem_cons] at h
+      rcases h with h | h
+      · subst h; exact List.mem_cons_self ..
+      · exact List.mem_cons_of_mem _ (ih h)
+    | detect c =>
+      simp only [Emission.tagsOf] at h
+      exact List.mem_cons_of_mem _ (ih h)
+
+/-- **C04's whole chain in the integrated simulation.**  If a repairable emission of a well-formed
+scenario ends a run of `N` days repaired by company `c`, then there is a day `T < N` on which the
+method at program position `c` — a component-level method — completed a survey of the emission's site
+whose report shows a measured rate > 0 at the emission's component; that survey issued the first tag
+request that ever reached the emission (no tag request reached it on an earlier day of its life), and
+the repair took effect exactly `max 1 (repair delay + that method's reporting delay)` days after `T`. -/
+theorem sim_repair_chain (w : World) (prog : Program) (inp : Inputs) (hw : WF w) (N i : Nat) (info : EmInfo)
+    (hi : w.ems[i]? = some info) (hr : info.p.repairable = true) (s : Emission.State)
+    (hs : (simState w prog inp N).ss[i]? = some s) (c : Nat)
+    (hrep : s.status = .repaired) (hby : s.by_ = .company c) :
+    ∃ T : Nat, T < N ∧ Emission.a info.p ≤ T ∧
+      (∃ t ∈ dayTraces w prog inp T, ∃ d ∈ t.dones,
+        t.m = c ∧ prog[c]? = some t.cfg ∧ t.cfg.tags = true ∧
+        t.dd = deploy t.cfg inp T t.reqs ∧ d.out ∈ t.dd.out ∧ d.out.rep.complete = true ∧
+        d.out.req.site = info.site ∧ d.rep = Sensor.surveyOf d.sv ∧
+        (∃ er ∈ d.rep.eqgs, ∃ cr ∈ er.comps, er.eqg = info.eqg ∧ cr.comp = info.comp ∧ cr.measured > 0) ∧
+        s.endDate = some ((T : Int) + Emission.atLeastOne (info.p.repairDelay + t.cfg.trd))) ∧
+      (∀ t : Nat, t < T → Emission.a info.p ≤ t → ∀ e, Emission.Ev.tag e ∉ evTrace w prog inp info t) := by
+  rw [sim_lifecycle w prog inp hw N i info hi] at hs
+  simp only [Option.some.injEq] at hs
+  subst hs
+  obtain ⟨T, hT, haT, ⟨e, rest, htags, hec, hend⟩, hno⟩ :=
+    Emission.C04_repair_needs_tag_E info.p hr (evTrace w prog inp info) N c hrep hby
+  have hmem : Emission.Ev.tag e ∈ evTrace w prog inp info T :=
+    mem_of_tagsOf _ e (by rw [htags]; exact List.mem_cons_self ..)
+  obtain ⟨t, ht, d, hd, hm, hprog, htg, htrd, hdd, hout, hcomp, hsite, hrepd, _, _, hmeas⟩ :=
+    sim_tag_chain w prog inp info T e hmem
+  refine ⟨T, hT, haT, ⟨t, ht, d, hd, by rw [hm, hec], by rw [← hec]; exact hprog, htg, hdd, hout, hcomp, hsite,
+    hrepd, hmeas, by rw [hend, htrd]⟩, ?_⟩
+  intro k hk hak e' he'
+  have := hno k hk hak
+  have hin : e' ∈ Emission.tagsOf (evTrace w prog inp info k) := by
+    clear this
+    generalize evTrace w prog inp info k = evs at he'
+    induction evs with
+    | nil => cases he'
+    | cons x xs ih =>
+      cases x with
+      | tag t' =>
+        simp only [Emission.tagsOf, List.mem_cons]
+        rcases List.mem_cons.1 he' with h | h
+        · left; injection h
+        · right; exact ih h
+      | detect c' =>
+        simp only [Emission.tagsOf]
+        rcases List.mem_cons.1 he' with h | h
+        · cases h
+        · exact ih h
+  rw [this] at hin
+  cases hin
+
+
+/-! ### (e) zero spatial coverage = the program without methods -/
+
+/-- every stored spatial-coverage outcome is "not covered" -/
+def CovFalse (covs : List Cov) : Prop := ∀ c ∈ covs, ∀ kb ∈ c, kb.2 = false
+
+/-- a completed survey that sends nothing to any emission -/
+def QuietD (d : Done) : Prop := d.targets = [] ∧ d.rep.recorded = []
+
+theorem lookup_false (m : Nat) (l : List (Nat × Bool)) (h : ∀ kb ∈ l, kb.2 = false) :
+    Sensor.lookup m l ≠ some true := by
+  induction l with
+  | nil => simp [Sensor.lookup]
+  | cons kb l ih =>
+    simp only [Sensor.lookup]
+    split
+    · have := h kb (List.mem_cons_self ..)
+      simp [this]
+    · exact ih (fun x hx => h x (List.mem_cons_of_mem _ hx))
+
+theorem detectOne_e (m s : Nat) (x : Sensor.Emis × Sensor.Rolls) :
+    (Sensor.detectOne m s x).e =
+      if Sensor.inScope s x.1 then (Sensor.checkSpatialCov m x.2.spatial x.1).e else x.1 := by
+  unfold Sensor.detectOne
+  by_cases h : Sensor.inScope s x.1 = true
+  · simp only [h, if_true]
+    by_cases h2 : ((Sensor.checkSpatialCov m x.2.spatial x.1).outcome && x.1.emitting) = true
+    · simp only [h2, if_true]
+    · simp only [h2]; rfl
+  · simp only [h]; rfl
+
+theorem detectOne_cov (m s : Nat) (x : Sensor.Emis × Sensor.Rolls) :
+    ∀ kb ∈ (Sensor.detectOne m s x).e.cov, kb ∈ x.1.cov ∨ kb = (m, x.2.spatial) := by
+  intro kb hkb
+  rw [detectOne_e] at hkb
+  split at hkb
+  · unfold Sensor.checkSpatialCov at hkb
+    split at hkb
+    · exact Or.inl hkb
+    · simp only [List.mem_cons] at hkb
+      rcases hkb with h | h
+      · exact Or.inr h
+      · exact Or.inl h
+  · exact Or.inl hkb
+
+theorem mem_zip3With {α β γ δ} (f : α → β → γ → δ) : ∀ (as : List α) (bs : List β) (cs : List γ) (x : δ),
+    x ∈ zip3With f as bs cs → ∃ a ∈ as, ∃ b ∈ bs, ∃ c ∈ cs, x = f a b c := by
+  intro as
+  induction as with
+  | nil => intro bs cs x h; simp [zip3With] at h
+  | cons a as ih =>
+    intro bs cs x h
+    cases bs with
+    | nil => simp [zip3With] at h
+    | cons b bs =>
+      cases cs with
+      | nil => simp [zip3With] at h
+      | cons c cs =>
+        simp only [zip3With, List.mem_cons] at h
+        rcases h with h | h
+        · exact ⟨a, List.mem_cons_self .., b, List.mem_cons_self .., c, List.mem_cons_self .., h⟩
+        · obtain ⟨a', ha', b', hb', c', hc', hx⟩ := ih bs cs x h
+          exact ⟨a', List.mem_cons_of_mem _ ha', b', List.mem_cons_of_mem _ hb', c', List.mem_cons_of_mem _ hc', hx⟩
+
+theorem mem_setCovs : ∀ (covs : List Cov) (after : List Sensor.Emis) (c : Cov),
+    c ∈ setCovs covs after → c ∈ covs ∨ ∃ a ∈ after, c = a.cov := by
+  intro covs
+  induction covs with
+  | nil => intro after c h; simp [setCovs] at h
+  | cons c0 cs ih =>
+    intro after c h
+    cases after with
+    | nil => simp only [setCovs] at h; exact Or.inl h
+    | cons a as =>
+      simp only [setCovs, List.mem_cons] at h
+      rcases h with h | h
+      · exact Or.inr ⟨a, List.mem_cons_self .., h⟩
+      · rcases ih as c h with h' | ⟨a', ha', hc⟩
+        · exact Or.inl (List.mem_cons_of_mem _ h')
+        · exact Or.inr ⟨a', List.mem_cons_of_mem _ ha', hc⟩
+
+theorem surveyOne_zero (w : World) (inp : Inputs) (hz : ∀ n m e, inp.spatial n m e = false) (n m : Nat)
+    (c : MethodCfg) (ss : List Emission.State) (lt : Nat → Int) (acc : List Cov × List Done) (o : Crew.OutRec)
+    (h1 : CovFalse acc.1) (h2 : ∀ d ∈ acc.2, QuietD d) :
+    CovFalse (surveyOne w inp n m c ss lt acc o).1 ∧ ∀ d ∈ (surveyOne w inp n m c ss lt acc o).2, QuietD d := by
+  have hxs : ∀ x ∈ mkXs w inp n m ss acc.1, (∀ kb ∈ x.1.cov, kb.2 = false) ∧ x.2.spatial = false := by
+    intro x hx
+    obtain ⟨info, _, s, _, cov, hcov, rfl⟩ := mem_zip3With _ _ _ _ _ hx
+    exact ⟨h1 cov hcov, hz n m info.idx⟩
+  constructor
+  · intro c' hc' kb hkb
+    simp only [surveyOne] at hc'
+    rcases mem_setCovs _ _ _ hc' with h | ⟨a, ha, rfl⟩
+    · exact h1 c' h kb hkb
+    · unfold Sensor.after Sensor.detect at ha
+      simp only [List.mem_map] at ha
+      obtain ⟨ob, ⟨x, hx, rfl⟩, rfl⟩ := ha
+      rcases detectOne_cov m o.req.site x kb hkb with h | h
+      · exact (hxs x hx).1 kb h
+      · rw [h]; exact (hxs x hx).2
+  · intro d hd
+    simp only [surveyOne, List.mem_append, List.mem_singleton] at hd
+    rcases hd with hd | hd
+    · exact h2 d hd
+    · subst hd
+      have hzc : Sensor.ZeroCoverage m (mkXs w inp n m ss acc.1) := by
+        intro x hx
+        exact ⟨lookup_false m _ (hxs x hx).1, (hxs x hx).2⟩
+      have hq := Sensor.C05_zero_coverage_is_quiet (sensorCfg w c o.req.site) m c.mdl o.req.site _ hzc
+      exact ⟨hq.2.1, hq.2.2⟩
+
+theorem surveyAll_zero (w : World) (inp : Inputs) (hz : ∀ n m e, inp.spatial n m e = false) (n m : Nat)
+    (c : MethodCfg) (ss : List Emission.State) (lt : Nat → Int) (covs : List Cov) (dd : Crew.DaySt) (h1 : CovFalse covs) :
+    CovFalse (surveyAll w inp n m c ss lt covs dd).1 ∧ ∀ d ∈ (surveyAll w inp n m c ss lt covs dd).2, QuietD d := by
+  unfold surveyAll
+  have key : ∀ (os : List Crew.OutRec) (acc : List Cov × List Done),
+      CovFalse acc.1 → (∀ d ∈ acc.2, QuietD d) →
+      CovFalse (os.foldl (surveyOne w inp n m c ss lt) acc).1 ∧
+        ∀ d ∈ (os.foldl (surveyOne w inp n m c ss lt) acc).2, QuietD d := by
+    intro os
+    induction os with
+    | nil => intro acc h1 h2; exact ⟨h1, h2⟩
+    | cons o os ih =>
+      intro acc h1 h2
+      simp only [List.foldl_cons]
+      have := surveyOne_zero w inp hz n m c ss lt acc o h1 h2
+      exact ih _ this.1 this.2
+  exact key _ _ h1 (by intro d hd; cases hd)
+
+theorem stepMethods_zero (w : World) (inp : Inputs) (hz : ∀ n m e, inp.spatial n m e = false) (n : Nat)
+    (ss : List Emission.State) : ∀ (cs : List MethodCfg) (m0 : Nat) (acc : Acc),
+    CovFalse acc.covs → (∀ t ∈ acc.traces, ∀ d ∈ t.dones, QuietD d) →
+    CovFalse (stepMethods w inp n ss m0 cs acc).covs ∧
+      ∀ t ∈ (stepMethods w inp n ss m0 cs acc).traces, ∀ d ∈ t.dones, QuietD d := by
+  intro cs
+  induction cs with
+  | nil => intro m0 acc h1 h2; exact ⟨h1, h2⟩
+  | cons c cs ih =>
+    intro m0 acc h1 h2
+    simp only [stepMethods]
+    apply ih
+    · exact (surveyAll_zero w inp hz n m0 c ss acc.latestTag acc.covs _ h1).1
+    · intro t ht d hd
+      simp only [methodStep, List.mem_append, List.mem_singleton] at ht
+      rcases ht with ht | ht
+      · exact h2 t ht d hd
+      · subst ht
+        exact (surveyAll_zero w inp hz n m0 c ss acc.latestTag acc.covs _ h1).2 d hd
+
+theorem simState_covs_succ (w : World) (prog : Program) (inp : Inputs) (N : Nat) :
+    (simState w prog inp (N + 1)).covs =
+      (stepMethods w inp N (actStates w N (simState w prog inp N)) 0 prog
+        { ms := (simState w prog inp N).ms, latestTag := (simState w prog inp N).latestTag,
+          covs := (simState w prog inp N).covs }).covs := rfl
+
+theorem covs_zero (w : World) (prog : Program) (inp : Inputs) (hz : ∀ n m e, inp.spatial n m e = false) (N : Nat) :
+    CovFalse (simState w prog inp N).covs := by
+  induction N with
+  | zero =>
+    intro c hc kb hkb
+    have : (simState w prog inp 0).covs = w.ems.map (fun _ => ([] : Cov)) := rfl
+    rw [this] at hc
+    simp only [List.mem_map] at hc
+    obtain ⟨_, _, rfl⟩ := hc
+    cases hkb
+  | succ n ih =>
+    rw [simState_covs_succ]
+    exact (stepMethods_zero w inp hz n _ prog 0 _ ih (by intro t ht; cases ht)).1
+
+/-- with every spatial roll 0, no survey of the run sends anything to any emission -/
+theorem zero_events (w : World) (prog : Program) (inp : Inputs) (hz : ∀ n m e, inp.spatial n m e = false)
+    (info : EmInfo) (n : Nat) : evTrace w prog inp info n = [] := by
+  unfold evTrace evsOf
+  rw [List.flatMap_eq_nil_iff]
+  intro d hd
+  unfold dayDones at hd
+  obtain ⟨t, ht, hdt⟩ := List.mem_flatMap.1 hd
+  have := (stepMethods_zero w inp hz n (actStates w n (simState w prog inp n)) prog 0
+    { ms := (simState w prog inp n).ms, latestTag := (simState w prog inp n).latestTag,
+      covs := (simState w prog inp n).covs } (covs_zero w prog inp hz n) (by intro t ht; cases ht)).2 t ht d hdt
+  unfold evOfDone
+  rw [this.1, this.2]
+  simp
+
+theorem srcs_indep (w : World) (prog : Program) (inp : Inputs) (N : Nat) :
+    (simState w prog inp N).srcs = (simState w [] inp N).srcs := by
+  induction N with
+  | zero => rfl
+  | succ n ih =>
+    have e : ∀ pr : Program, (simState w pr inp (n + 1)).srcs =
+        ((simState w pr inp n).srcs.map (Heap.activateSrc (n : Int))).map (·.2) := fun _ => rfl
+    rw [e, e, ih]
+
+theorem finishEm_nil (n : Nat) (dones : List Done) (info : EmInfo) (s : Emission.State)
+    (h : evsOf info dones = []) : finishEm n dones info s = finishEm n [] info s := by
+  unfold finishEm
+  rw [h]
+  rfl
+
+/-- **(e) a method never acts on what it cannot see, whole-simulation form (C05 / C01).**  If every
+spatial coverage roll of a run is 0, then — for every world, every program, every other input and
+every horizon — the emission states, the emission records and the emission columns of every
+timeseries row are those of the program without methods. -/
+theorem sim_zero_coverage (w : World) (prog : Program) (inp : Inputs)
+    (hz : ∀ n m e, inp.spatial n m e = false) :
+    (∀ N, (simState w prog inp N).ss = (simState w [] inp N).ss) ∧
+    (∀ N, records w N (simState w prog inp N) = records w N (simState w [] inp N)) ∧
+    (∀ n, (simRow w prog inp n).em = (simRow w [] inp n).em) ∧
+    (∀ n, (simRow w prog inp n).cost.repCost = (simRow w [] inp n).cost.repCost ∧
+          (simRow w prog inp n).cost.natRepCost = (simRow w [] inp n).cost.natRepCost) := by
+  have hnew : ∀ N, newIdsOn w prog inp N = newIdsOn w [] inp N := by
+    intro N; unfold newIdsOn; rw [srcs_indep]
+  have hfin : ∀ n, finishEm n (dayDones w prog inp n) = finishEm n (dayDones w [] inp n) := by
+    intro n
+    funext info s
+    rw [finishEm_nil n _ info s (zero_events w prog inp hz info n),
+        finishEm_nil n _ info s (zero_events w [] inp hz info n)]
+  have hss : ∀ N, (simState w prog inp N).ss = (simState w [] inp N).ss := by
+    intro N
+    induction N with
+    | zero => rfl
+    | succ n ih => rw [simState_ss_succ, simState_ss_succ, ih, hnew, hfin]
+  have hdays : ∀ n, (simDayOut w prog inp n (simState w prog inp n)).days =
+      (simDayOut w [] inp n (simState w [] inp n)).days := by
+    intro n
+    have e : ∀ pr : Program, (simDayOut w pr inp n (simState w pr inp n)).days =
+        List.zipWith (finishEm n (dayDones w pr inp n)) w.ems
+          (List.zipWith (activateS n (newIdsOn w pr inp n)) w.ems (simState w pr inp n).ss) := fun _ => rfl
+    rw [e, e, hss, hnew, hfin]
+  refine ⟨hss, ?_, ?_, ?_⟩
+  · intro N; unfold records; rw [hss]
+  · intro n
+    have e : ∀ pr : Program, (simRow w pr inp n).em =
+        emRow ((newIdsOn w pr inp n).length : Nat) (simDayOut w pr inp n (simState w pr inp n)).days := fun _ => rfl
+    rw [e, e, hdays, hnew]
+  · intro n
+    have e1 : ∀ pr : Program, (simRow w pr inp n).cost.repCost =
+        repSumOf inp (simDayOut w pr inp n (simState w pr inp n)).days := fun _ => rfl
+    have e2 : ∀ pr : Program, (simRow w pr inp n).cost.natRepCost =
+        natSumOf inp (simDayOut w pr inp n (simState w pr inp n)).days := fun _ => rfl
+    rw [e1, e1, e2, e2, hdays]
+    exact ⟨rfl, rfl⟩
+
+
+/-! ### (f) requests are issued only in deployment years and months -/
+
+/-- **(f)** every request a method's planners issue on a day of `simRun` is issued for a site of that
+method in one of the site's deployment years and deployment months (the calendar date of the day is the
+input `inp.date`).  (That such a request may be *served* later, outside the month, is C06's finding
+F12; the statement here is about the day of issue.) -/
+theorem sim_issued_in_months (w : World) (prog : Program) (inp : Inputs) (n : Nat) :
+    ∀ t ∈ dayTraces w prog inp n, ∀ i ∈ t.issued,
+      prog[t.m]? = some t.cfg ∧ i ∈ t.cfg.sites ∧
+      (inp.date n).y ∈ (t.cfg.P i).depYears ∧ (inp.date n).m ∈ (t.cfg.P i).months := by
+  intro t ht i hi
+  obtain ⟨hprog, _, _, _, hiss, _⟩ := day_traces w prog inp n _ t ht
+  exact ⟨hprog, hiss i hi⟩
+
+/-! ### (d) the cost columns -/
+
+theorem first_eq (n : Nat) : decide (n = 0) = (n == 0) := by cases n <;> rfl
+
+/-- the per-method columns of the row are those of the day's traces, in program order -/
+theorem row_meth (w : World) (prog : Program) (inp : Inputs) (n : Nat) :
+    (simRow w prog inp n).meth = (dayTraces w prog inp n).map colsOf := rfl
+
+/-- the cost block of the row is `Cost.dailyRow` of the methods' cost data and the repair-cost totals -/
+theorem row_cost (w : World) (prog : Program) (inp : Inputs) (n : Nat) :
+    (simRow w prog inp n).cost =
+      Cost.dailyRow (n == 0) (methodDays (simRow w prog inp n).meth)
+        (simRow w prog inp n).cost.repCost (simRow w prog inp n).cost.natRepCost := by
+  have e : (simRow w prog inp n).cost =
+      Cost.dailyRow (decide (n = 0)) (methodDays (simRow w prog inp n).meth)
+        (repSumOf inp (simDayOut w prog inp n (simState w prog inp n)).days)
+        (natSumOf inp (simDayOut w prog inp n (simState w prog inp n)).days) := rfl
+  rw [e, first_eq]
+  rfl
+
+/-- **(d) C10's row identity in the integrated simulation**: on every day, "Daily Cost" = Σ over the
+program's methods of (deployment cost + upfront cost on the first day) + the day's repair cost
+= the sum of the per-method cost columns + the day's repair cost; the natural-repair cost is reported
+separately and is not part of it; the per-method column shows deployment cost (+ upfront on day 0). -/
+theorem sim_cost_identity (w : World) (prog : Program) (inp : Inputs) (n : Nat) :
+    (simRow w prog inp n).cost.cost
+        = ((simRow w prog inp n).meth.map (fun c => c.cost + if n = 0 then c.upfront else 0)).sum
+          + (simRow w prog inp n).cost.repCost ∧
+    (simRow w prog inp n).cost.cost
+        = (simRow w prog inp n).cost.methodCols.sum + (simRow w prog inp n).cost.repCost ∧
+    (simRow w prog inp n).cost.methodCols
+        = (simRow w prog inp n).meth.map (fun c => if n = 0 then c.cost + c.upfront else c.cost) := by
+  have h := Cost.row_identity (n == 0) (methodDays (simRow w prog inp n).meth)
+    (simRow w prog inp n).cost.repCost (simRow w prog inp n).cost.natRepCost
+  rw [← row_cost] at h
+  refine ⟨?_, h.2.1, ?_⟩
+  · rw [h.1]
+    congr 1
+    unfold methodDays
+    rw [List.map_map]
+    congr 1
+    apply List.map_congr_left
+    intro c _
+    cases n <;> simp
+  · rw [row_cost]
+    unfold Cost.dailyRow methodDays
+    simp only [List.map_map]
+    apply List.map_congr_left
+    intro c _
+    cases n <;> simp
+
+/-- every method's deployment cost of the day is `Cost.methodDay` of the method's own plan of the day:
+C10's `per_site_once` / `per_day_once` / `upfront_amount` speak about exactly this number -/
+theorem sim_method_cost (w : World) (prog : Program) (inp : Inputs) (n : Nat) :
+    ∀ t ∈ dayTraces w prog inp n,
+      prog[t.m]? = some t.cfg ∧
+      (colsOf t).cost = (Cost.methodDay t.cfg.cost t.cfg.stationary t.cfg.considerWeather env0
+                          (budgetMin t.cfg (inp.daylightMin n)) t.cfg.crews t.reqs).deploy ∧
+      (colsOf t).upfront = (Cost.methodDay t.cfg.cost t.cfg.stationary t.cfg.considerWeather env0
+                          (budgetMin t.cfg (inp.daylightMin n)) t.cfg.crews t.reqs).upfront := by
+  intro t ht
+  obtain ⟨hprog, hdd, _, _, _, _⟩ := day_traces w prog inp n _ t ht
+  refine ⟨hprog, ?_, rfl⟩
+  unfold colsOf
+  simp only
+  rw [hdd]
+  rfl
+
+/-- a per-site method is charged, on every day of the run, the survey cost of exactly the sites whose
+survey its crews completed that day (C10 `per_site_once` instantiated at the integrated simulation) -/
+theorem sim_per_site_once (w : World) (prog : Program) (inp : Inputs) (n : Nat) :
+    ∀ t ∈ dayTraces w prog inp n, (methodP t.cfg).perSite = true →
+      (colsOf t).cost = (((t.dd.out.filter (fun o => o.rep.complete)).map
+          (fun o => Crew.siteCharge (methodP t.cfg) o.req)).sum) := by
+  intro t ht hp
+  obtain ⟨_, hdd, _, _, _, _⟩ := day_traces w prog inp n _ t ht
+  unfold colsOf
+  simp only
+  rw [hdd]
+  exact Cost.per_site_once (methodP t.cfg) _ _ _ hp
+
+
+/-! ### (d, continued) repair costs: the row is `Cost.programDay`, every repair is charged once -/
+
+/-- the repairable emissions of the scenario as C10's leaks: parameters, the repair cost drawn for the
+emission, and the tag requests the simulation sends to it -/
+def leaksOf (w : World) (prog : Program) (inp : Inputs) : List Cost.Leak :=
+  (w.ems.filter (fun info => info.p.repairable)).map (fun info =>
+    { p := info.p, cost := inp.repairCost info.idx,
+      ev := fun d => Emission.tagsOf (evTrace w prog inp info d) })
+
+theorem bookOnUpdate_tproj (p : Emission.Params) (c : Int) (s s' : Emission.State)
+    (h : Emission.tproj s = Emission.tproj s') : Cost.bookOnUpdate p c s = Cost.bookOnUpdate p c s' := by
+  rw [Emission.tproj_eq_iff] at h
+  obtain ⟨h1, h2, h3, h4, h5, _⟩ := h
+  unfold Cost.bookOnUpdate
+  simp only [h1, h2, h3, h4, h5]
+
+theorem book_eq (w : World) (prog : Program) (inp : Inputs) (info : EmInfo) (c : Int) (n : Nat) :
+    Cost.bookOnUpdate info.p c (World.mid (emOf w prog inp info) n) =
+      Cost.bookDay info.p c (fun d => Emission.tagsOf (evTrace w prog inp info d)) n := by
+  unfold Cost.bookDay World.mid
+  apply bookOnUpdate_tproj
+  apply Emission.events_tproj
+  apply Emission.activate_tproj
+  exact Emission.runE_tproj _ _ _
+
+theorem bookOnUpdate_nonrep (p : Emission.Params) (c : Int) (s : Emission.State) (h : p.repairable = false) :
+    Cost.bookOnUpdate p c s = (0, 0) := by
+  unfold Cost.bookOnUpdate
+  simp [h]
+
+theorem sum_filter_zero {α} (l : List α) (q : α → Bool) (f : α → Int) (h : ∀ a ∈ l, q a = false → f a = 0) :
+    (l.map f).sum = ((l.filter q).map f).sum := by
+  induction l with
+  | nil => rfl
+  | cons a l ih =>
+    have ih' := ih (fun b hb => h b (List.mem_cons_of_mem _ hb))
+    cases hq : q a
+    · simp [List.filter_cons, hq, h a (List.mem_cons_self ..) hq, ih']
+    · simp [List.filter_cons, hq, ih']
+
+/-- **the cost block of every row of the integrated simulation is C10's `Cost.programDay`** of the
+methods' daily cost data and the scenario's repairable emissions, in a well-formed scenario -/
+theorem sim_cost_program (w : World) (prog : Program) (inp : Inputs) (hw : WF w) (n : Nat) :
+    (simRow w prog inp n).cost =
+      Cost.programDay (fun k => methodDays (simRow w prog inp k).meth) (leaksOf w prog inp) n := by
+  rw [row_cost]
+  unfold Cost.programDay
+  have e1 : (simRow w prog inp n).cost.repCost =
+      repSumOf inp (simDayOut w prog inp n (simState w prog inp n)).days := rfl
+  have e2 : (simRow w prog inp n).cost.natRepCost =
+      natSumOf inp (simDayOut w prog inp n (simState w prog inp n)).days := rfl
+  have h1 : (simRow w prog inp n).cost.repCost = Cost.repSum (leaksOf w prog inp) n := by
+    rw [e1, days_eq w prog inp hw n]
+    unfold repSumOf Cost.repSum leaksOf
+    simp only [List.map_map]
+    rw [sum_filter_zero w.ems (fun info => info.p.repairable)]
+    · congr 1
+      apply List.map_congr_left
+      intro info _
+      simp only [Function.comp]
+      rw [book_eq]
+    · intro info _ hq
+      simp only [Function.comp]
+      rw [bookOnUpdate_nonrep _ _ _ hq]
+  have h2 : (simRow w prog inp n).cost.natRepCost = Cost.natSum (leaksOf w prog inp) n := by
+    rw [e2, days_eq w prog inp hw n]
+    unfold natSumOf Cost.natSum leaksOf
+    simp only [List.map_map]
+    rw [sum_filter_zero w.ems (fun info => info.p.repairable)]
+    · congr 1
+      apply List.map_congr_left
+      intro info _
+      simp only [Function.comp]
+      rw [book_eq]
+    · intro info _ hq
+      simp only [Function.comp]
+      rw [bookOnUpdate_nonrep _ _ _ hq]
+  rw [h1, h2]
+
+/-- **every program repair is charged exactly once** (C10 `program_repairs_once` at the integrated
+simulation): over a run of `N` days the "Daily Repair Cost" column adds up to the drawn repair costs
+of exactly the emissions the program repaired, the natural-repair column to those that ended naturally -/
+theorem sim_repairs_once (w : World) (prog : Program) (inp : Inputs) (hw : WF w) (N : Nat) :
+    Cost.sumTo (fun n => (simRow w prog inp n).cost.repCost) N
+      = ((leaksOf w prog inp).map (fun e =>
+          if (Emission.run e.p e.ev N).status = .repaired ∧ (Emission.run e.p e.ev N).by_ ≠ .natural
+          then e.cost else 0)).sum ∧
+    Cost.sumTo (fun n => (simRow w prog inp n).cost.natRepCost) N
+      = ((leaksOf w prog inp).map (fun e =>
+          if (Emission.run e.p e.ev N).status = .repaired ∧ (Emission.run e.p e.ev N).by_ = .natural
+          then e.cost else 0)).sum := by
+  have hr : ∀ e ∈ leaksOf w prog inp, e.p.repairable = true := by
+    intro e he
+    unfold leaksOf at he
+    simp only [List.mem_map, List.mem_filter] at he
+    obtain ⟨info, ⟨_, hrep⟩, rfl⟩ := he
+    exact hrep
+  have h := Cost.program_repairs_once (fun k => methodDays (simRow w prog inp k).meth) (leaksOf w prog inp) N hr
+  have e : ∀ n, (simRow w prog inp n).cost =
+      Cost.programDay (fun k => methodDays (simRow w prog inp k).meth) (leaksOf w prog inp) n :=
+    fun n => sim_cost_program w prog inp hw n
+  simp only [e]
+  exact ⟨h.2.1, h.2.2⟩
+
+
+/-! ### C08 in the integrated simulation: crews, weather, one report per planned request -/
+
+theorem workable_wxOf (c : MethodCfg) (b : Bool) (r : Crew.Req) (h : r.wx = wxOf b) :
+    Crew.workable (methodP c) r = (!c.considerWeather || b) := by
+  unfold Crew.workable methodP Cost.methodP
+  simp only [h]
+  cases b <;> simp [Crew.checkWeather, wxOf, env0]
+
+/-- **weather (C08) in the integrated simulation**: whenever a crew of a method that considers the
+weather visits a site on a day of `simRun`, the weather check of that (day, method, site) — the
+input `inp.workable` — succeeded; and every planned request of every method gets exactly one crew
+record, in plan order, built from the day's inputs of its own (method, site). -/
+theorem sim_weather (w : World) (prog : Program) (inp : Inputs) (n : Nat) :
+    ∀ t ∈ dayTraces w prog inp n,
+      t.dd.out.map (·.req) = t.reqs ∧ t.reqs.map (·.site) = t.keys ∧
+      ∀ o ∈ t.dd.out, ∀ s, o.step = some s → s.visited = true →
+        t.cfg.considerWeather = true → inp.workable n t.m o.req.site = true := by
+  intro t ht
+  obtain ⟨_, hdd, _, _, _, hkeys, hreqs⟩ := day_traces w prog inp n _ t ht
+  have hone : t.dd.out.map (·.req) = t.reqs := by
+    rw [hdd]; exact Crew.one_report_per_request _ _ _ _
+  refine ⟨hone, hkeys, ?_⟩
+  intro o ho s hs hv hcw
+  have hmem : o.req ∈ t.reqs := by rw [← hone]; exact List.mem_map.2 ⟨o, ho, rfl⟩
+  have hwx := (hreqs o.req hmem).2.2.2
+  rw [hdd] at ho
+  have := (Crew.weather_visited _ _ _ _ o ho s hs hv).1
+  rw [workable_wxOf t.cfg _ o.req hwx, hcw] at this
+  simpa using this
+
+/-- **crew budget (C08) in the integrated simulation**: on every day, for every method, if the planned
+requests are admissible (`Crew.ReqOk`: travel time ≥ 0, minutes surveyed so far within the survey time,
+not yet complete) then no crew's minutes — travel, survey and the trip home — exceed the budget of the
+day, which is the work day capped by daylight when the method considers daylight. -/
+theorem sim_day_budget (w : World) (prog : Program) (inp : Inputs) (n : Nat) :
+    ∀ t ∈ dayTraces w prog inp n, 0 ≤ t.cfg.workdayH → 0 ≤ inp.daylightMin n →
+      (∀ r ∈ t.reqs, Crew.ReqOk (methodP t.cfg) r) →
+      t.budget ≤ t.cfg.workdayH * 60 ∧ (t.cfg.considerDaylight = true → t.budget ≤ inp.daylightMin n) ∧
+      ∀ c ∈ t.dd.crews, Crew.crewMinutes c.id t.dd.out + Crew.crewHome c.id t.dd.out ≤ t.budget := by
+  intro t ht hw hd hreq
+  obtain ⟨_, hdd, hb, _, _, _⟩ := day_traces w prog inp n _ t ht
+  have hb0 : 0 ≤ budgetMin t.cfg (inp.daylightMin n) := by unfold budgetMin; split <;> (try split) <;> omega
+  refine ⟨?_, ?_, ?_⟩
+  · rw [hb]; unfold budgetMin; split <;> (try split) <;> omega
+  · intro hcd; rw [hb]; unfold budgetMin; simp only [hcd, if_true]; split <;> omega
+  · rw [hdd, hb]
+    exact Crew.day_budget (methodP t.cfg) _ hb0 (nCrews t.cfg) t.reqs hreq
+
+/-! ### the schedules of the integrated simulation are `Sched.runDays` states (C06 / C07 apply) -/
+
+theorem getD_set (l : List MethSt) (i j : Nat) (a : MethSt) :
+    (l.set i a).getD j {} = if i = j ∧ i < l.length then a else l.getD j {} := by
+  simp only [List.getD_eq_getElem?_getD, List.getElem?_set]
+  by_cases h : i = j
+  · subst h
+    by_cases hl : i < l.length
+    · simp [hl]
+    · simp [hl]
+  · simp [h]
+
+theorem ownUpdate_eq (c : MethodCfg) (inp : Inputs) (n : Nat) (pd : PlanDay) (s : Sched.State) :
+    ∃ out, ownUpdate c inp n pd s = Sched.scheduleDay (schedCfg c) { date := inp.date n, out := out } s :=
+  ⟨fun i => match outOf pd.dd i with | some o => outcomeOf o | none => .untouched, by
+    unfold ownUpdate; simp only [lookupD_tabulate]; rfl⟩
+
+theorem postStep_length (c : MethodCfg) (inp : Inputs) (n m : Nat) (ms : List MethSt) (lt : Nat → Int)
+    (pd : PlanDay) (dones : List Done) : (postStep c inp n m ms lt pd dones).ms.length = ms.length := by
+  unfold postStep
+  split <;> simp
+
+theorem postStep_sched (c : MethodCfg) (inp : Inputs) (n k : Nat) (ms : List MethSt) (lt : Nat → Int)
+    (pd : PlanDay) (dones : List Done) (m : Nat) (hk : k < ms.length) :
+    ((postStep c inp n k ms lt pd dones).ms.getD m {}).sched =
+      if k = m ∧ c.role ≠ .followUp then ownUpdate c inp n pd (ms.getD k {}).sched
+      else (ms.getD m {}).sched := by
+  unfold postStep
+  split
+  · rename_i hr
+    simp only [getD_set, hr]
+    by_cases h : k = m
+    · subst h; simp [hk]
+    · simp [h]
+  · rename_i fu hr
+    simp only [getD_set, List.length_set, hr]
+    by_cases h1 : k = m
+    · subst h1
+      by_cases h5 : fu = k
+      · subst h5; simp [hk]
+      · simp [hk, h5]
+    · by_cases h3 : fu = m
+      · subst h3
+        by_cases h4 : fu < ms.length
+        · simp [h1, hk, h4]
+        · simp [h1, hk, h4]
+      · simp [h1, h3]
+  · rename_i hr
+    simp only [getD_set, hr]
+    by_cases h : k = m
+    · subst h; simp [hk]
+    · simp [h]
+
+theorem methodStep_ms (w : World) (inp : Inputs) (n : Nat) (ss : List Emission.State) (acc : Acc) (k : Nat)
+    (c : MethodCfg) :
+    (methodStep w inp n ss acc k c).ms =
+      (postStep c inp n k acc.ms acc.latestTag (planDay c inp n k (acc.ms.getD k {}) acc.latestTag)
+        (surveyAll w inp n k c ss acc.latestTag acc.covs (planDay c inp n k (acc.ms.getD k {}) acc.latestTag).dd).2).ms := rfl
+
+/-- through the methods loop of one day, the schedule of the method at position `m` is touched only
+by that method's own step, which is one `Sched.scheduleDay` with the day's calendar date -/
+theorem stepMethods_sched (w : World) (inp : Inputs) (n : Nat) (ss : List Emission.State) (m : Nat) :
+    ∀ (cs : List MethodCfg) (m0 : Nat) (acc : Acc), m0 + cs.length ≤ acc.ms.length →
+      (stepMethods w inp n ss m0 cs acc).ms.length = acc.ms.length ∧
+      (match cs[m - m0]? with
+       | some c =>
+         if m0 ≤ m ∧ c.role ≠ .followUp then
+           ∃ out, ((stepMethods w inp n ss m0 cs acc).ms.getD m {}).sched =
+             Sched.scheduleDay (schedCfg c) { date := inp.date n, out := out } (acc.ms.getD m {}).sched
+         else ((stepMethods w inp n ss m0 cs acc).ms.getD m {}).sched = (acc.ms.getD m {}).sched
+       | none => ((stepMethods w inp n ss m0 cs acc).ms.getD m {}).sched = (acc.ms.getD m {}).sched) := by
+  intro cs
+  induction cs with
+  | nil => intro m0 acc _; exact ⟨rfl, by simp [stepMethods]⟩
+  | cons c cs ih =>
+    intro m0 acc hlen
+    simp only [List.length_cons] at hlen
+    have hk : m0 < acc.ms.length := by omega
+    have hl1 : (methodStep w inp n ss acc m0 c).ms.length = acc.ms.length := by
+      rw [methodStep_ms]; exact postStep_length ..
+    have hs1 := fun m' => postStep_sched c inp n m0 acc.ms acc.latestTag
+      (planDay c inp n m0 (acc.ms.getD m0 {}) acc.latestTag)
+      (surveyAll w inp n m0 c ss acc.latestTag acc.covs (planDay c inp n m0 (acc.ms.getD m0 {}) acc.latestTag).dd).2 m' hk
+    obtain ⟨ihl, ihs⟩ := ih (m0 + 1) (methodStep w inp n ss acc m0 c) (by rw [hl1]; omega)
+    simp only [stepMethods]
+    refine ⟨by rw [ihl, hl1], ?_⟩
+    by_cases hlt : m < m0
+    · -- before the range: nothing touches it
+      have e0 : m - m0 = 0 := by omega
+      have e1 : m - (m0 + 1) = 0 := by omega
+      rw [e1] at ihs
+      have hnot : ¬ (m0 + 1 ≤ m) := by omega
+      have h1 : ((methodStep w inp n ss acc m0 c).ms.getD m {}).sched = (acc.ms.getD m {}).sched := by
+        rw [methodStep_ms, hs1 m]; simp; intro h; omega
+      rw [e0]
+      simp only [List.getElem?_cons_zero]
+      have hnot0 : ¬ (m0 ≤ m) := by omega
+      simp only [hnot0, false_and, if_false]
+      cases hcs : cs[0]? with
+      | none => rw [hcs] at ihs; simp only at ihs; rw [ihs, h1]
+      | some c' => rw [hcs] at ihs; simp only [hnot, false_and, if_false] at ihs; rw [ihs, h1]
+    · by_cases heq : m = m0
+      · subst heq
+        have e0 : m - m = 0 := by omega
+        have e1 : m - (m + 1) = 0 := by omega
+        rw [e1] at ihs
+        have hnot : ¬ (m + 1 ≤ m) := by omega
+        have hrest : ((stepMethods w inp n ss (m + 1) cs (methodStep w inp n ss acc m c)).ms.getD m {}).sched =
+            ((methodStep w inp n ss acc m c).ms.getD m {}).sched := by
+          cases hcs : cs[0]? with
+          | none => rw [hcs] at ihs; exact ihs
+          | some c' => rw [hcs] at ihs; simp only [hnot, false_and, if_false] at ihs; exact ihs
+        rw [e0]
+        simp only [List.getElem?_cons_zero]
+        rw [hrest, methodStep_ms, hs1 m]
+        by_cases hr : c.role = .followUp
+        · simp [hr]
+        · have hr' : c.role ≠ .followUp := hr
+          rw [if_pos (⟨Nat.le_refl m, hr'⟩ : m ≤ m ∧ c.role ≠ .followUp),
+              if_pos (⟨rfl, hr'⟩ : m = m ∧ c.role ≠ .followUp)]
+          exact ownUpdate_eq ..
+      · -- after position m0: the first step leaves it alone, the rest by induction
+        have hgt : m0 + 1 ≤ m := by omega
+        have e : m - m0 = (m - (m0 + 1)) + 1 := by omega
+        have h1 : ((methodStep w inp n ss acc m0 c).ms.getD m {}).sched = (acc.ms.getD m {}).sched := by
+          rw [methodStep_ms, hs1 m]; simp; intro h; omega
+        rw [e]
+        simp only [List.getElem?_cons_succ]
+        have hle : m0 ≤ m := by omega
+        cases hcs : cs[m - (m0 + 1)]? with
+        | none => rw [hcs] at ihs; simp only at ihs ⊢; rw [ihs, h1]
+        | some c' =>
+          rw [hcs] at ihs
+          simp only [hgt, hle, true_and] at ihs ⊢
+          rw [h1] at ihs
+          exact ihs
+
+theorem ms_length (w : World) (prog : Program) (inp : Inputs) (N : Nat) :
+    (simState w prog inp N).ms.length = prog.length := by
+  induction N with
+  | zero => simp [simState, init]
+  | succ n ih =>
+    have e : (simState w prog inp (n + 1)).ms =
+        (stepMethods w inp n (actStates w n (simState w prog inp n)) 0 prog
+          { ms := (simState w prog inp n).ms, latestTag := (simState w prog inp n).latestTag,
+            covs := (simState w prog inp n).covs }).ms := rfl
+    rw [e, (stepMethods_sched w inp n _ 0 prog 0 _ (by simp [ih])).1]
+    exact ih
+
+/-- **the schedule of every routine / screening method of the integrated simulation is a
+`Sched.runDays` state**: after `N` simulated days it is the result of `N` scheduled days of the
+component model (`Sched.scheduleDay`) carrying the calendar dates of the run, for some crew outcomes.
+Every theorem of C06 / C07 that holds for all day lists (`done_le_required_partial`, `C07_routine_classes`,
+`no_duplicates`, `priority`, `minutes_add_up`, …) therefore holds of the integrated simulation. -/
+theorem sim_sched_runDays (w : World) (prog : Program) (inp : Inputs) (m : Nat) (c : MethodCfg)
+    (hc : prog[m]? = some c) (hr : c.role ≠ .followUp) (N : Nat) :
+    ∃ ds : List Sched.DayIn, ds.map (·.date) = (List.range N).map inp.date ∧
+      ((simState w prog inp N).ms.getD m {}).sched = Sched.runDays (schedCfg c) ds := by
+  induction N with
+  | zero =>
+    refine ⟨[], rfl, ?_⟩
+    have hm : m < prog.length := by
+      rcases List.getElem?_eq_some_iff.1 hc with ⟨h, _⟩; exact h
+    simp [simState, init, Sched.runDays, List.getD_eq_getElem?_getD, hm]
+    rfl
+  | succ n ih =>
+    obtain ⟨ds, hdates, hs⟩ := ih
+    have e : (simState w prog inp (n + 1)).ms =
+        (stepMethods w inp n (actStates w n (simState w prog inp n)) 0 prog
+          { ms := (simState w prog inp n).ms, latestTag := (simState w prog inp n).latestTag,
+            covs := (simState w prog inp n).covs }).ms := rfl
+    have h := (stepMethods_sched w inp n (actStates w n (simState w prog inp n)) m prog 0
+      { ms := (simState w prog inp n).ms, latestTag := (simState w prog inp n).latestTag,
+        covs := (simState w prog inp n).covs } (by simp [ms_length])).2
+    simp only [Nat.sub_zero, hc] at h
+    rw [if_pos (⟨Nat.zero_le m, hr⟩ : 0 ≤ m ∧ c.role ≠ .followUp)] at h
+    obtain ⟨out, hout⟩ := h
+    refine ⟨ds ++ [{ date := inp.date n, out := out }], ?_, ?_⟩
+    · simp [List.range_succ, hdates]
+    · rw [e, hout, hs]
+      simp [Sched.runDays, List.foldl_append]
+
+/-! ### C08 unconditionally: the schedule → crews → schedule loop keeps every planned request admissible -/
+
+/-- an unfinished report carried by a routine / stationary planner is admissible for the next visit -/
+def SRepOK (c : MethodCfg) (i : Nat) : Option Sched.Report → Prop
+  | none => True
+  | some r => r.complete = false ∧ 0 ≤ r.surveyed ∧ r.surveyed ≤ c.S i ∧ (c.stationary = true → r.surveyed = 0)
+
+def CRepOK (c : MethodCfg) (i : Nat) (r : Crew.Report) : Prop :=
+  r.complete = false ∧ 0 ≤ r.surveyed ∧ r.surveyed ≤ c.S i ∧ (c.stationary = true → r.surveyed = 0)
+
+def Kpos (c : MethodCfg) (me : MethSt) : Prop :=
+  (∀ i, SRepOK c i (me.sched.pl i).rep) ∧ (∀ i, CRepOK c i (me.rep i))
+
+theorem requestPhase_rep (sc : Sched.Cfg) (dt : Sched.Date) (s : Sched.State) (i : Nat) :
+    ((Sched.requestPhase sc dt s).pl i).rep = (s.pl i).rep := by
+  unfold Sched.requestPhase
+  simp only
+  split <;> rfl
+
+theorem crepOK_of_srep (c : MethodCfg) (i : Nat) (hS : 0 ≤ c.S i) (r : Option Sched.Report) (h : SRepOK c i r) :
+    CRepOK c i (toCrewRep (r.getD {})) := by
+  cases r with
+  | none => exact ⟨rfl, Int.le_refl 0, hS, fun _ => rfl⟩
+  | some r => exact h
+
+theorem planDay_reqOk (c : MethodCfg) (inp : Inputs) (n m : Nat) (me : MethSt) (lt : Nat → Int)
+    (hS : ∀ i, 0 ≤ c.S i) (hT : ∀ i, 0 ≤ inp.travel n m i) (hK : Kpos c me) :
+    ∀ r ∈ (planDay c inp n m me lt).reqs, Crew.ReqOk (methodP c) r := by
+  intro r hr
+  unfold planDay at hr
+  split at hr
+  · simp only [List.mem_map] at hr
+    obtain ⟨i, _, rfl⟩ := hr
+    have := hK.2 i
+    exact ⟨hT i, this.2.1, this.2.2.1, this.2.2.2, this.1⟩
+  · simp only [List.mem_map] at hr
+    obtain ⟨i, _, rfl⟩ := hr
+    have h0 := hK.1 i
+    rw [← requestPhase_rep (schedCfg c) (inp.date n) me.sched i] at h0
+    have := crepOK_of_srep c i (hS i) _ h0
+    exact ⟨hT i, this.2.1, this.2.2.1, this.2.2.2, this.1⟩
+
+
+
+theorem partial_surveyed (R S T P : Int) (st w : Bool)
+    (h : (Crew.surveyStep R S T P st w).branch = .partial_) :
+    (Crew.surveyStep R S T P st w).surveyed = P + (Crew.surveyStep R S T P st w).today := by
+  unfold Crew.surveyStep at *
+  grind
+
+theorem outOf_some (dd : Crew.DaySt) (i : Nat) (o : Crew.OutRec) (h : outOf dd i = some o) :
+    o ∈ dd.out ∧ o.req.site = i := by
+  unfold outOf at h
+  exact ⟨List.mem_of_find?_eq_some h, by simpa using List.find?_some h⟩
+
+theorem planDay_own (c : MethodCfg) (inp : Inputs) (n m : Nat) (me : MethSt) (lt : Nat → Int)
+    (hrole : c.role ≠ .followUp) :
+    (planDay c inp n m me lt).keys =
+      (Sched.dayTrace (schedCfg c) { date := inp.date n, out := fun _ => .untouched } me.sched).keys ∧
+    (planDay c inp n m me lt).reqs = (planDay c inp n m me lt).keys.map
+      (mkReq c inp n m (fun i => toCrewRep (((Sched.requestPhase (schedCfg c) (inp.date n) me.sched).pl i).rep.getD {}))) := by
+  unfold planDay
+  split
+  · rename_i h; exact absurd h hrole
+  · exact ⟨rfl, rfl⟩
+
+theorem ownUpdate_K (c : MethodCfg) (inp : Inputs) (n m : Nat) (me : MethSt) (lt : Nat → Int)
+    (hrole : c.role ≠ .followUp) (hS : ∀ i, 0 ≤ c.S i) (hT : ∀ i, 0 ≤ inp.travel n m i)
+    (hB : 0 ≤ budgetMin c (inp.daylightMin n)) (hK : Kpos c me) :
+    ∀ i, SRepOK c i ((ownUpdate c inp n (planDay c inp n m me lt) me.sched).pl i).rep := by
+  intro i
+  have hreq := planDay_reqOk c inp n m me lt hS hT hK
+  obtain ⟨hkeys, hreqs⟩ := planDay_own c inp n m me lt hrole
+  have hdd := planDay_dd c inp n m me lt
+  generalize planDay c inp n m me lt = pd at *
+  -- the planner of site `i` before deployment
+  have h0 : SRepOK c i ((Sched.requestPhase (schedCfg c) (inp.date n) me.sched).pl i).rep := by
+    rw [requestPhase_rep]; exact hK.1 i
+  unfold ownUpdate
+  simp only [lookupD_tabulate]
+  simp only [Sched.scheduleDay, Sched.dayTrace]
+  by_cases hi : i ∈ Sched.dictKeys (List.map (fun x => x.site)
+      ((Sched.requestPhase (schedCfg c) (inp.date n) me.sched).q.takeN
+        (Sched.takeCount (schedCfg c) (Sched.requestPhase (schedCfg c) (inp.date n) me.sched).q)).1)
+  · simp only [hi, true_and, if_true]
+    obtain ⟨ps, hps⟩ : ∃ ps, ps = (Sched.requestPhase (schedCfg c) (inp.date n) me.sched).pl i := ⟨_, rfl⟩
+    rw [← hps] at h0 ⊢
+    -- the report the crews are handed
+    have hr0 : (ps.rep.getD {}).complete = false ∧ SRepOK c i (some (ps.rep.getD {})) := by
+      cases hps : ps.rep with
+      | none => exact ⟨rfl, rfl, Int.le_refl 0, hS i, fun _ => rfl⟩
+      | some r => rw [hps] at h0; exact ⟨h0.1, h0⟩
+    have hunt : SRepOK c i
+        (if Sched.isComplete (Sched.applyOutcome ((schedCfg c).P i) .untouched ps) = true then
+          Sched.finish (inp.date n).y (Sched.applyOutcome ((schedCfg c).P i) .untouched ps)
+         else Sched.applyOutcome ((schedCfg c).P i) .untouched ps).rep := by
+      simp only [Sched.applyOutcome, Sched.isComplete, hr0.1]
+      exact hr0.2
+    cases hout : outOf pd.dd i with
+    | none => simpa using hunt
+    | some o =>
+      simp only
+      obtain ⟨homem, hosite⟩ := outOf_some pd.dd i o hout
+      unfold outcomeOf
+      by_cases hc : o.rep.complete = true
+      · simp only [hc, if_true, Sched.applyOutcome, Sched.isComplete, Sched.finish]
+        trivial
+      · have hc' : o.rep.complete = false := by simpa using hc
+        simp only [hc', Bool.false_eq_true, if_false]
+        cases hst : o.step with
+        | none => simpa using hunt
+        | some st =>
+          simp only
+          by_cases hb : st.branch = .partial_
+          · simp only [hb, if_true, Sched.applyOutcome, Sched.isComplete, hr0.1, Bool.false_eq_true, if_false]
+            -- the crew record of the visit
+            rw [hdd] at homem
+            have hone : (deploy c inp n pd.reqs).out.map (·.req) = pd.reqs := Crew.one_report_per_request _ _ _ _
+            have hmem : o.req ∈ pd.reqs := by rw [← hone]; exact List.mem_map.2 ⟨o, homem, rfl⟩
+            rw [hreqs] at hmem
+            obtain ⟨j, _, hj⟩ := List.mem_map.1 hmem
+            have hji : j = i := by rw [← hosite, ← hj]; rfl
+            subst hji
+            have hrec := (Crew.deployDay_recOk _ _ _ _ o homem).1 st hst
+            have hok := Crew.out_reqOk (methodP c) _ hB (nCrews c) pd.reqs hreq o homem hc'
+            have hP : o.req.rep.surveyed = (ps.rep.getD {}).surveyed := by rw [← hj, hps]; rfl
+            have hSj : o.req.S = c.S j := by rw [← hj]; rfl
+            have hsur : o.rep.surveyed = (ps.rep.getD {}).surveyed + st.today := by
+              rw [hrec.2.1]
+              unfold Crew.applyStep
+              simp only [hb]
+              rw [hrec.1] at hb ⊢
+              rw [partial_surveyed _ _ _ _ _ _ hb, hP]
+            refine ⟨rfl, ?_, ?_, ?_⟩
+            · show 0 ≤ (ps.rep.getD {}).surveyed + st.today
+              rw [← hsur]; exact hok.hP
+            · show (ps.rep.getD {}).surveyed + st.today ≤ c.S j
+              rw [← hsur, ← hSj]; exact hok.hPS
+            · intro hstat
+              show (ps.rep.getD {}).surveyed + st.today = 0
+              rw [← hsur]; exact hok.hSt hstat
+          · simp only [hb, if_false]
+            exact hunt
+  · simp only [hi, false_and, if_false]
+    exact h0
+
+
+
+/-- the report table a follow-up method hands to the next day -/
+def fuRepNext (pd : PlanDay) (me : MethSt) : Nat → Crew.Report := fun i =>
+  match outOf pd.dd i with
+  | some o => if o.rep.complete then {} else o.rep
+  | none => me.rep i
+
+theorem fuRep_K (c : MethodCfg) (inp : Inputs) (n m : Nat) (me : MethSt) (lt : Nat → Int)
+    (hS : ∀ i, 0 ≤ c.S i) (hT : ∀ i, 0 ≤ inp.travel n m i)
+    (hB : 0 ≤ budgetMin c (inp.daylightMin n)) (hK : Kpos c me) :
+    ∀ i, CRepOK c i (fuRepNext (planDay c inp n m me lt) me i) := by
+  intro i
+  have hreq := planDay_reqOk c inp n m me lt hS hT hK
+  have hdd := planDay_dd c inp n m me lt
+  have hreqs := (planDay_reqs c inp n m me lt).2
+  generalize planDay c inp n m me lt = pd at *
+  unfold fuRepNext
+  cases hout : outOf pd.dd i with
+  | none => exact hK.2 i
+  | some o =>
+    simp only
+    obtain ⟨homem, hosite⟩ := outOf_some pd.dd i o hout
+    by_cases hc : o.rep.complete = true
+    · simp only [hc, if_true]
+      exact ⟨rfl, Int.le_refl 0, hS i, fun _ => rfl⟩
+    · have hc' : o.rep.complete = false := by simpa using hc
+      simp only [hc', Bool.false_eq_true, if_false]
+      rw [hdd] at homem
+      have hone : (deploy c inp n pd.reqs).out.map (·.req) = pd.reqs := Crew.one_report_per_request _ _ _ _
+      have hmem : o.req ∈ pd.reqs := by rw [← hone]; exact List.mem_map.2 ⟨o, homem, rfl⟩
+      have hSo := (hreqs o.req hmem).1
+      have hok := Crew.out_reqOk (methodP c) _ hB (nCrews c) pd.reqs hreq o homem hc'
+      rw [hosite] at hSo
+      exact ⟨hc', hok.hP, by rw [← hSo]; exact hok.hPS, hok.hSt⟩
+
+/-- every method position carries admissible reports -/
+def KAll (prog : Program) (ms : List MethSt) : Prop :=
+  ∀ m c, prog[m]? = some c → Kpos c (ms.getD m {})
+
+theorem postStep_rep (c : MethodCfg) (inp : Inputs) (n k : Nat) (ms : List MethSt) (lt : Nat → Int)
+    (pd : PlanDay) (dones : List Done) (m : Nat) (hk : k < ms.length) (i : Nat) :
+    ((postStep c inp n k ms lt pd dones).ms.getD m {}).rep i = (ms.getD m {}).rep i ∨
+    ((postStep c inp n k ms lt pd dones).ms.getD m {}).rep i = {} ∨
+    (c.role = .followUp ∧ k = m ∧
+      ((postStep c inp n k ms lt pd dones).ms.getD m {}).rep i = fuRepNext pd (ms.getD k {}) i) := by
+  unfold postStep
+  split
+  · rename_i hr
+    left
+    simp only [getD_set]
+    by_cases h : k = m
+    · subst h; simp [hk]
+    · simp [h]
+  · rename_i fu hr
+    simp only [getD_set, List.length_set]
+    by_cases h1 : k = m
+    · subst h1
+      by_cases h5 : fu = k
+      · subst h5
+        simp only [hk, and_self, if_true]
+        split
+        · left; rfl
+        · right; left; rfl
+      · left; simp [hk, h5]
+    · by_cases h3 : fu = m
+      · subst h3
+        by_cases h4 : fu < ms.length
+        · simp only [h1, false_and, if_false, h4, and_self, if_true, Ne.symm h1]
+          split
+          · left; rfl
+          · right; left; rfl
+        · left; simp [h1, h4]
+      · left; simp [h1, h3]
+  · rename_i hr
+    simp only [getD_set]
+    by_cases h : k = m
+    · subst h
+      right; right
+      refine ⟨hr, rfl, ?_⟩
+      rw [if_pos ⟨rfl, hk⟩]
+      simp only [lookupD_tabulate]
+      rfl
+    · left; simp [h]
+
+
+
+/-- what the theorems about minutes need of the static data and the inputs: survey times, work days,
+sampled travel times and daylight are not negative -/
+def InputsOK (prog : Program) (inp : Inputs) : Prop :=
+  (∀ c ∈ prog, (∀ i, 0 ≤ c.S i) ∧ 0 ≤ c.workdayH) ∧ (∀ n m i, 0 ≤ inp.travel n m i) ∧ (∀ n, 0 ≤ inp.daylightMin n)
+
+theorem budget_nonneg (c : MethodCfg) (d : Int) (hw : 0 ≤ c.workdayH) (hd : 0 ≤ d) : 0 ≤ budgetMin c d := by
+  unfold budgetMin; split <;> (try split) <;> omega
+
+theorem crepOK_default (c : MethodCfg) (i : Nat) (hS : 0 ≤ c.S i) : CRepOK c i {} :=
+  ⟨rfl, Int.le_refl 0, hS, fun _ => rfl⟩
+
+theorem postStep_KAll (prog : Program) (inp : Inputs) (hin : InputsOK prog inp) (n k : Nat) (c : MethodCfg)
+    (ms : List MethSt) (lt : Nat → Int) (dones : List Done) (hk : prog[k]? = some c) (hlen : k < ms.length)
+    (hK : KAll prog ms) :
+    KAll prog (postStep c inp n k ms lt (planDay c inp n k (ms.getD k {}) lt) dones).ms := by
+  intro m c' hm
+  have hKm := hK m c' hm
+  have hKk := hK k c hk
+  have hcm : c ∈ prog := List.mem_of_getElem? hk
+  have hcm' : c' ∈ prog := List.mem_of_getElem? hm
+  have hB := budget_nonneg c (inp.daylightMin n) (hin.1 c hcm).2 (hin.2.2 n)
+  constructor
+  · intro i
+    rw [postStep_sched _ _ _ _ _ _ _ _ m hlen]
+    split
+    · rename_i h
+      obtain ⟨rfl, hr⟩ := h
+      have : c' = c := by rw [hk] at hm; exact (Option.some.inj hm).symm
+      subst this
+      exact ownUpdate_K c' inp n k (ms.getD k {}) lt hr (hin.1 c' hcm).1 (hin.2.1 n k) hB hKk i
+    · exact hKm.1 i
+  · intro i
+    rcases postStep_rep c inp n k ms lt (planDay c inp n k (ms.getD k {}) lt) dones m hlen i with h | h | ⟨_, rfl, h⟩
+    · rw [h]; exact hKm.2 i
+    · rw [h]; exact crepOK_default c' i ((hin.1 c' hcm').1 i)
+    · have : c' = c := by rw [hk] at hm; exact (Option.some.inj hm).symm
+      subst this
+      rw [h]
+      exact fuRep_K c' inp n k (ms.getD k {}) lt (hin.1 c' hcm).1 (hin.2.1 n k) hB hKk i
+
+theorem stepMethods_KAll (w : World) (prog : Program) (inp : Inputs) (hin : InputsOK prog inp) (n : Nat)
+    (ss : List Emission.State) : ∀ (cs : List MethodCfg) (m0 : Nat) (acc : Acc),
+    (∀ j, j < cs.length → cs[j]? = prog[m0 + j]?) → m0 + cs.length ≤ acc.ms.length → KAll prog acc.ms →
+    KAll prog (stepMethods w inp n ss m0 cs acc).ms ∧
+    ∀ t ∈ (stepMethods w inp n ss m0 cs acc).traces,
+      t ∈ acc.traces ∨ ∀ r ∈ t.reqs, Crew.ReqOk (methodP t.cfg) r := by
+  intro cs
+  induction cs with
+  | nil => intro m0 acc _ _ hK; exact ⟨hK, fun t ht => Or.inl ht⟩
+  | cons c cs ih =>
+    intro m0 acc hsuf hlen hK
+    simp only [List.length_cons] at hlen
+    have hk : prog[m0]? = some c := by
+      have := hsuf 0 (by simp)
+      simpa using this.symm
+    have hlt : m0 < acc.ms.length := by omega
+    have hcm : c ∈ prog := List.mem_of_getElem? hk
+    have hK1 : KAll prog (methodStep w inp n ss acc m0 c).ms := by
+      rw [methodStep_ms]
+      exact postStep_KAll prog inp hin n m0 c acc.ms acc.latestTag _ hk hlt hK
+    have hl1 : (methodStep w inp n ss acc m0 c).ms.length = acc.ms.length := by
+      rw [methodStep_ms]; exact postStep_length ..
+    simp only [stepMethods]
+    obtain ⟨ihK, ihT⟩ := ih (m0 + 1) (methodStep w inp n ss acc m0 c)
+      (by intro j hj
+          have := hsuf (j + 1) (by simp; omega)
+          simp only [List.getElem?_cons_succ] at this
+          rw [this]; congr 1; omega)
+      (by rw [hl1]; omega) hK1
+    refine ⟨ihK, ?_⟩
+    intro t ht
+    rcases ihT t ht with h | h
+    · simp only [methodStep, List.mem_append, List.mem_singleton] at h
+      rcases h with h | h
+      · exact Or.inl h
+      · right
+        subst h
+        exact planDay_reqOk c inp n m0 (acc.ms.getD m0 {}) acc.latestTag (hin.1 c hcm).1 (hin.2.1 n m0) (hK m0 c hk)
+    · exact Or.inr h
+
+theorem KAll_init (w : World) (prog : Program) (inp : Inputs) (hin : InputsOK prog inp) :
+    KAll prog (simState w prog inp 0).ms := by
+  intro m c hm
+  have hcm : c ∈ prog := List.mem_of_getElem? hm
+  have hlt : m < prog.length := (List.getElem?_eq_some_iff.1 hm).1
+  have : (simState w prog inp 0).ms.getD m {} = {} := by
+    simp [simState, init, List.getD_eq_getElem?_getD, hlt]
+  rw [this]
+  exact ⟨fun i => trivial, fun i => crepOK_default c i ((hin.1 c hcm).1 i)⟩
+
+theorem sim_KAll (w : World) (prog : Program) (inp : Inputs) (hin : InputsOK prog inp) (N : Nat) :
+    KAll prog (simState w prog inp N).ms := by
+  induction N with
+  | zero => exact KAll_init w prog inp hin
+  | succ n ih =>
+    have e : (simState w prog inp (n + 1)).ms =
+        (stepMethods w inp n (actStates w n (simState w prog inp n)) 0 prog
+          { ms := (simState w prog inp n).ms, latestTag := (simState w prog inp n).latestTag,
+            covs := (simState w prog inp n).covs }).ms := rfl
+    rw [e]
+    exact (stepMethods_KAll w prog inp hin n _ prog 0 _ (by intro j _; simp) (by simp [ms_length]) ih).1
+
+/-- **every planned request of every method on every day of the integrated simulation is admissible**
+(`Crew.ReqOk`): the report a planner carries over from an unfinished survey has between 0 and the
+site's survey time minutes on it and is not complete — the wiring schedule → crews → schedule keeps
+this invariant, so the theorems of C08 apply to every crew day of `simRun` -/
+theorem sim_reqs_ok (w : World) (prog : Program) (inp : Inputs) (hin : InputsOK prog inp) (n : Nat) :
+    ∀ t ∈ dayTraces w prog inp n, ∀ r ∈ t.reqs, Crew.ReqOk (methodP t.cfg) r := by
+  intro t ht
+  have := (stepMethods_KAll w prog inp hin n (actStates w n (simState w prog inp n)) prog 0
+    { ms := (simState w prog inp n).ms, latestTag := (simState w prog inp n).latestTag,
+      covs := (simState w prog inp n).covs } (by intro j _; simp) (by simp [ms_length])
+    (sim_KAll w prog inp hin n)).2 t ht
+  rcases this with h | h
+  · cases h
+  · exact h
+
+/-- **C08 in the integrated simulation, unconditionally**: with non-negative survey times, work days,
+travel times and daylight, on every day of `simRun` no crew of any method works — travel, survey and
+the trip home — longer than the budget of the day, which is within the method's work day and, when
+the method considers daylight, within the daylight of that day. -/
+theorem sim_crews_within_workday (w : World) (prog : Program) (inp : Inputs) (hin : InputsOK prog inp) (n : Nat) :
+    ∀ t ∈ dayTraces w prog inp n,
+      t.budget ≤ t.cfg.workdayH * 60 ∧ (t.cfg.considerDaylight = true → t.budget ≤ inp.daylightMin n) ∧
+      ∀ c ∈ t.dd.crews, Crew.crewMinutes c.id t.dd.out + Crew.crewHome c.id t.dd.out ≤ t.budget := by
+  intro t ht
+  have hprog := (day_traces w prog inp n _ t ht).1
+  have hcm : t.cfg ∈ prog := List.mem_of_getElem? hprog
+  exact sim_day_budget w prog inp n t ht (hin.1 t.cfg hcm).2 (hin.2.2 n) (sim_reqs_ok w prog inp hin n t ht)
+
+/-! ### C02 / C03 across programs: the no-LDAR run is the simulated program without methods -/
+
+theorem runE_nil (p : Emission.Params) (N : Nat) :
+    Emission.runE p (fun _ => []) N = Emission.baseline p N := by
+  induction N with
+  | zero => rfl
+  | succ n ih =>
+    simp only [Emission.runE, Emission.baseline, Emission.run, Emission.dayE, Emission.day, Emission.noEvents,
+      List.foldl_nil]
+    rw [ih]
+    rfl
+
+theorem evTrace_no_methods (w : World) (inp : Inputs) (info : EmInfo) (n : Nat) :
+    evTrace w [] inp info n = [] := rfl
+
+/-- in the simulated program without methods every emission runs its no-LDAR life (`Emission.baseline`) -/
+theorem sim_baseline_state (w : World) (inp : Inputs) (hw : WF w) (N i : Nat) (info : EmInfo)
+    (hi : w.ems[i]? = some info) :
+    (simState w [] inp N).ss[i]? = some (Emission.baseline info.p N) := by
+  rw [sim_lifecycle w [] inp hw N i info hi]
+  have : evTrace w [] inp info = fun _ => [] := by funext n; rfl
+  rw [this, runE_nil]
+
+/-- **C02 in the integrated simulation, leak by leak, against the simulated baseline program.**  For a
+repairable emission of a well-formed scenario, the days it is active under any program plus the
+mitigated days of its record equal the days it is active in the run of the program *without methods*
+on the same scenario and inputs; mitigated days are never negative, and are non-zero only for an
+emission the program repaired.  For persistent sources the same holds for the emitted days (volumes). -/
+theorem sim_mitigation (w : World) (prog : Program) (inp : Inputs) (hw : WF w) (N i : Nat) (info : EmInfo)
+    (hi : w.ems[i]? = some info) (hr : info.p.repairable = true) (sP sB : Emission.State)
+    (hP : (simState w prog inp N).ss[i]? = some sP) (hB : (simState w [] inp N).ss[i]? = some sB) :
+    sP.activeDays + Emission.mitDays info.p sP (Emission.summaryEndArg N) = sB.activeDays ∧
+    0 ≤ Emission.mitDays info.p sP (Emission.summaryEndArg N) ∧
+    (Emission.mitDays info.p sP (Emission.summaryEndArg N) ≠ 0 →
+        sP.status = .repaired ∧ ∃ c, sP.by_ = .company c) ∧
+    (info.p.intermittent = false →
+        Emission.emitDays info.p sP + Emission.mitDays info.p sP (Emission.summaryEndArg N)
+          = Emission.emitDays info.p sB) := by
+  rw [sim_lifecycle w prog inp hw N i info hi] at hP
+  rw [sim_baseline_state w inp hw N i info hi] at hB
+  simp only [Option.some.injEq] at hP hB
+  subst hP; subst hB
+  have h := Emission.C02_calendar_days_E info.p (evTrace w prog inp info) N hr
+  exact ⟨h.1, h.2.1, h.2.2, fun hp => (Emission.C02_partial_E info.p _ N hr hp).1⟩
+
+/-- **C03 in the integrated simulation**: no emission — repairable or not, any parameters — is active
+longer under any program than in the simulated run of the program without methods -/
+theorem sim_never_worse (w : World) (prog : Program) (inp : Inputs) (hw : WF w) (N i : Nat) (info : EmInfo)
+    (hi : w.ems[i]? = some info) (sP sB : Emission.State)
+    (hP : (simState w prog inp N).ss[i]? = some sP) (hB : (simState w [] inp N).ss[i]? = some sB) :
+    sP.activeDays ≤ sB.activeDays := by
+  rw [sim_lifecycle w prog inp hw N i info hi] at hP
+  rw [sim_baseline_state w inp hw N i info hi] at hB
+  simp only [Option.some.injEq] at hP hB
+  subst hP; subst hB
+  exact Emission.C03_le_baseline_all_E info.p _ N
+
+/-! ### the statements at full strength, what is proved, and why (b), (c) need a well-formed scenario -/
+
+/-- (b) and (c) for *all* worlds -/
+def lifecycle_all_worlds : Prop :=
+  ∀ (w : World) (prog : Program) (inp : Inputs) (N i : Nat) (info : EmInfo), w.ems[i]? = some info →
+    (simState w prog inp N).ss[i]? = some (Emission.runE info.p (evTrace w prog inp info) N)
+
+def row_world_all_worlds : Prop :=
+  ∀ (w : World) (prog : Program) (inp : Inputs) (n : Nat),
+    (simRow w prog inp n).em = World.row (worldOf w prog inp) n
+
+/-- an ill-formed scenario: the pending list of the only source is not sorted by start date — the
+emission that started before the period waits behind one that starts on day 5 (`Source.activate_emissions`
+stops at the first emission whose start lies in the future) -/
+def unsortedWorld : World :=
+  { ems := [{ idx := 0, p := { start := 5, nrd := 30, repairDelay := 0, repairable := true, intermittent := false,
+                               activeDur := 1, inactiveDur := 0 }, rate := 1024, site := 1, eqg := 0, comp := 0 },
+            { idx := 1, p := { start := 0, nrd := 30, repairDelay := 0, repairable := true, intermittent := false,
+                               activeDur := 1, inactiveDur := 0 }, rate := 1024, site := 1, eqg := 0, comp := 0 }],
+    srcs := [{ pending := [{ id := 0, start := 5 }, { id := 1, start := 0 }] }],
+    layout := fun _ => [(0, [0])] }
+
+def quietInputs : Inputs :=
+  { date := fun n => { y := 2023, m := 1, d := n + 1 }, spatial := fun _ _ _ => true, temporal := fun _ _ _ => true,
+    travel := fun _ _ _ => 30, workable := fun _ _ _ => true, daylightMin := fun _ => 1440, repairCost := fun _ => 50 }
+
+theorem unsortedWorld_not_wf : ¬ WF unsortedWorld := by unfold WF; decide +kernel
+
+/-- without sorted pending lists the life-cycle of an emission in the simulation is *not* `runE`:
+(c) (and with it (b)) needs the guarantee of `Source.generate_emissions` (C16 `generate_sorted`) -/
+theorem lifecycle_all_worlds_counterexample : ¬ lifecycle_all_worlds := by
+  intro h
+  have := h unsortedWorld [] quietInputs 1 1 _ rfl
+  revert this
+  decide +kernel
+
+theorem row_world_all_worlds_counterexample : ¬ row_world_all_worlds := by
+  intro h
+  have := congrArg World.Row.new (h unsortedWorld [] quietInputs 0)
+  revert this
+  decide +kernel
+
+/-- the composition property, every clause at the strength that is proved -/
+def Sim_statement : Prop :=
+  -- (a) tag chain
+  (∀ (w : World) (prog : Program) (inp : Inputs) (info : EmInfo) (n : Nat) (e : Emission.TagEv),
+      Emission.Ev.tag e ∈ evTrace w prog inp info n →
+      ∃ t ∈ dayTraces w prog inp n, ∃ d ∈ t.dones,
+        t.m = e.company ∧ prog[e.company]? = some t.cfg ∧ t.cfg.tags = true ∧ e.trd = t.cfg.trd ∧
+        t.dd = deploy t.cfg inp n t.reqs ∧ d.out ∈ t.dd.out ∧ d.out.rep.complete = true ∧
+        d.out.req.site = info.site ∧ d.rep = Sensor.surveyOf d.sv ∧ d.sv.site = info.site ∧ d.sv.m = e.company ∧
+        ∃ er ∈ d.rep.eqgs, ∃ cr ∈ er.comps, er.eqg = info.eqg ∧ cr.comp = info.comp ∧ cr.measured > 0) ∧
+  -- (b) emission columns = World.row, (c) life-cycle = runE: well-formed scenarios
+  (∀ (w : World) (prog : Program) (inp : Inputs), WF w →
+      (∀ n, (simRow w prog inp n).em = World.row (worldOf w prog inp) n) ∧
+      (∀ (N i : Nat) (info : EmInfo), w.ems[i]? = some info →
+        (simState w prog inp N).ss[i]? = some (Emission.runE info.p (evTrace w prog inp info) N))) ∧
+  -- (d) cost row identity
+  (∀ (w : World) (prog : Program) (inp : Inputs) (n : Nat),
+      (simRow w prog inp n).cost.cost
+          = ((simRow w prog inp n).meth.map (fun c => c.cost + if n = 0 then c.upfront else 0)).sum
+            + (simRow w prog inp n).cost.repCost ∧
+      (simRow w prog inp n).cost.cost
+          = (simRow w prog inp n).cost.methodCols.sum + (simRow w prog inp n).cost.repCost) ∧
+  -- (e) zero spatial coverage = no methods
+  (∀ (w : World) (prog : Program) (inp : Inputs), (∀ n m e, inp.spatial n m e = false) →
+      (∀ N, records w N (simState w prog inp N) = records w N (simState w [] inp N)) ∧
+      (∀ n, (simRow w prog inp n).em = (simRow w [] inp n).em)) ∧
+  -- (f) requests only in deployment years and months
+  (∀ (w : World) (prog : Program) (inp : Inputs) (n : Nat), ∀ t ∈ dayTraces w prog inp n, ∀ i ∈ t.issued,
+      (inp.date n).y ∈ (t.cfg.P i).depYears ∧ (inp.date n).m ∈ (t.cfg.P i).months)
+
+theorem Sim : Sim_statement := by
+  refine ⟨sim_tag_chain, ?_, ?_, ?_, ?_⟩
+  · intro w prog inp hw
+    exact ⟨sim_row_world w prog inp hw, sim_lifecycle w prog inp hw⟩
+  · intro w prog inp n
+    have := sim_cost_identity w prog inp n
+    exact ⟨this.1, this.2.1⟩
+  · intro w prog inp hz
+    have := sim_zero_coverage w prog inp hz
+    exact ⟨this.2.1, this.2.2.1⟩
+  · intro w prog inp n t ht i hi
+    have := sim_issued_in_months w prog inp n t ht i hi
+    exact ⟨this.2.2.1, this.2.2.2⟩
+
+/-! ### non-vacuity: a concrete simulation in which every hypothesis is met and something happens -/
+
+def exP : Emission.Params :=
+  { start := 0, nrd := 100, repairDelay := 1, repairable := true, intermittent := false, activeDur := 1, inactiveDur := 0 }
+
+/-- one site, one group with two components, an emission present from the start and one starting on day 2 -/
+def exWorld : World :=
+  { ems := [{ idx := 0, p := exP, rate := 1024, site := 1, eqg := 0, comp := 0 },
+            { idx := 1, p := { exP with start := 2 }, rate := 2048, site := 1, eqg := 0, comp := 1 }],
+    srcs := [{ pending := [{ id := 0, start := 0 }] }, { pending := [{ id := 1, start := 2 }] }],
+    layout := fun _ => [(0, [0, 1])] }
+
+def exPlanner : Sched.PlannerP :=
+  { rs := 1, months := [1], depYears := [2023], simYears := [2023], plan := [(1, 1)], surveyTime := 60 }
+
+/-- a routine component-level method: one crew, per-site cost 100, upfront 7, reporting delay 1 -/
+def exOGI : MethodCfg :=
+  { role := .routine, crews := 1, cap := 5, workdayH := 8, cost := { perDay := 0, perSite := some 100, upfront := 7 },
+    mdl := 512, trd := 1, sites := [1], S := fun _ => 60, siteCost := fun _ => 0, P := fun _ => exPlanner }
+
+/-- the scenario is well formed; the survey of day 0 tags emission 0, which is repaired by company 0 on
+day 1 (end date 2 = day 0 + max 1 (1 + 1)); emission 1 starts after the only survey and stays active;
+day 0 costs 100 + upfront 7, day 1 the repair cost 50 -/
+example :
+    WF exWorld ∧
+    (simState exWorld [exOGI] quietInputs 4).ss.map (fun s => (s.status, s.by_, s.endDate))
+      = [(.repaired, .company 0, some 2), (.active, .none, none)] ∧
+    ((List.range 3).map (simRow exWorld [exOGI] quietInputs)).map (fun r => (r.em.active, r.em.repaired, r.cost.cost, r.tagged))
+      = [(1, 0, 107, 1), (0, 1, 50, 0), (1, 0, 0, 0)] ∧
+    evTrace exWorld [exOGI] quietInputs { idx := 0, p := exP, rate := 1024, site := 1, eqg := 0, comp := 0 } 0
+      = [.tag { company := 0, trd := 1 }] ∧
+    (dayTraces exWorld [exOGI] quietInputs 0).map (·.issued) = [[1]] := by
+  unfold WF
+  decide +kernel
+
+/-- (e) is not vacuous either: with every spatial roll 0 the same program surveys (and is paid) but
+nothing is tagged -/
+example :
+    let inp0 : Inputs := { quietInputs with spatial := fun _ _ _ => false }
+    (simState exWorld [exOGI] inp0 4).ss.map (fun s => s.status) = [.active, .active] ∧
+    (simRow exWorld [exOGI] inp0 0).cost.cost = 107 ∧ (simRow exWorld [exOGI] inp0 0).tagged = 0 := by
+  decide +kernel
 
 end LdarModel.Sim
